@@ -1,3 +1,1417 @@
-import ElfioVerif.Model.Load
+/-
+C17 — a truncated file never yields wrong data.
+
+`pre := img.take k` is the prefix of length `k` of the complete image `img` (any bytes: nothing
+below needs the image to be well-formed, so the statements also cover truncated malformed files).
+No address translation (`tr = []`).
+
+  read_prefix / isolatedRead_prefix   a read on the prefix that is complete delivers the bytes
+                                      the same read delivers on the complete image
+  secLoad_prefix                      a section loaded from the prefix has the zeroed header
+                                      (short read: the F8 fix) or exactly the header fields
+                                      that the complete image holds in that table slot; its
+                                      data is absent or the bytes of the complete image
+  segLoad_prefix                      a segment's data is absent or the bytes of the image
+  exposes_only_file_bytes             whatever data a load of the prefix exposes lies inside
+                                      the prefix and equals the complete image there
+  prefix_load_safe                    memory safety: C01 instantiated
+  prefix_sound (+ _section, _segment) the composition over the loops, as a two-run simulation:
+                                      if the load of the prefix returns true, the load of the
+                                      complete image returns true with the identical ELF header
+                                      and identical segments (fields, data, members), and every
+                                      section of the prefix run is the zeroed one (only without
+                                      segments) or has the same header fields with data absent or
+                                      the same bytes.  Hypothesis: len < 2^63, no translation.
+                                      Section names: for equal name offsets the prefix run's name
+                                      is empty or the same string.
+Not covered by a theorem (family docstring): the NAME of a zeroed section (it is the string at
+offset 0 of the name table — empty only if the table starts with NUL: the one place where
+well-formedness of the image is needed) and the accessor read-outs (separate families).
+-/
+import ElfioVerif.Props.C01
 namespace ElfioVerif.C17
+open ElfioVerif Gen
+
+/-- the same stream state over the complete image -/
+def onFull (s : IStream) (img : Bytes) : IStream := { s with data := img }
+
+theorem take_length_le (img : Bytes) (k : Nat) : (img.take k).length ≤ k ∧ (img.take k).length ≤ img.length := by
+  rw [List.length_take]; omega
+
+/-- If a `read n` on (a stream over) the prefix delivers `gcount = n`, the same read on the
+    complete image delivers the same bytes and leaves the stream in the same state; the bytes are
+    the image's bytes at the read position and the range lies inside the prefix. -/
+theorem read_prefix (img : Bytes) (k : Nat) (s : IStream) (n : Nat) (hs : s.data = img.take k)
+    (hn : 0 < n) (h : (s.read n).1.gcount = n) :
+    ((onFull s img).read n).2 = (s.read n).2 ∧ ((onFull s img).read n).1 = onFull (s.read n).1 img ∧
+    (s.read n).2 = slice img s.pos n ∧ s.pos + n ≤ k := by
+  have hg := IStream.good_of_gcount s n (by rw [h]; omega)
+  obtain ⟨hgot, hle⟩ := IStream.read_full s n h hn
+  have hl := take_length_le img k
+  rw [hs] at hle
+  have hgf : (onFull s img).good = true := hg
+  rw [IStream.read_ok s n hg (by rw [hs]; exact hle),
+    IStream.read_ok (onFull s img) n hgf (by simp only [onFull]; omega)]
+  simp only [onFull, hs]
+  refine ⟨?_, ?_, ?_, by omega⟩
+  · exact (slice_take (by omega)).symm
+  · first | rfl | trivial
+  · exact slice_take (by omega)
+
+/-- the same for the `clear(); seekg(off); read(n)` sequence of `load_data` -/
+theorem isolatedRead_prefix (img : Bytes) (k : Nat) (s : IStream) (off n : BitVec 64)
+    (hs : s.data = img.take k) (hn : n ≠ 0) (h : (isolatedRead s off n).2.2 = true) :
+    (isolatedRead (onFull s img) off n).2.2 = true ∧
+    (isolatedRead (onFull s img) off n).2.1 = (isolatedRead s off n).2.1 ∧
+    (isolatedRead s off n).2.1 = slice img off.toNat n.toNat ∧ off.toNat + n.toNat ≤ k := by
+  obtain ⟨hgot, hlen⟩ := isolatedRead_complete s off n h hn
+  obtain ⟨h0, h1⟩ := isolatedRead_complete_nonneg s off n h hn
+  have hl := take_length_le img k
+  rw [hs] at hgot hlen
+  rw [slice_length] at hlen
+  have hn' : 0 < n.toNat := by
+    rcases Nat.eq_zero_or_pos n.toNat with h0 | h0
+    · exact absurd (BitVec.eq_of_toNat_eq (by simpa using h0)) hn
+    · exact h0
+  have hr : off.toNat + n.toNat ≤ (img.take k).length := by omega
+  obtain ⟨f1, f2, -, -⟩ := isolatedRead_inrange (onFull s img) off n h0 h1 (by simp only [onFull]; omega)
+  refine ⟨f2, ?_, ?_, by omega⟩
+  · rw [f1, hgot]; simp only [onFull]; exact (slice_take (by omega)).symm
+  · rw [hgot]; exact slice_take (by omega)
+
+/-! ### one section / segment loaded from the prefix -/
+
+/-- the ten ELF section header fields -/
+structure SameFields (b' b : SecBuf) : Prop where
+  stype : b'.stype = b.stype
+  size : b'.size = b.size
+  offset : b'.offset = b.offset
+  nameOff : b'.nameOff = b.nameOff
+  flags : b'.flags = b.flags
+  addr : b'.addr = b.addr
+  link : b'.link = b.link
+  info : b'.info = b.info
+  addrAlign : b'.addrAlign = b.addrAlign
+  entSize : b'.entSize = b.entSize
+
+theorem _root_.ElfioVerif.SameHdr.fields {b' b : SecBuf} (h : SameHdr b' b) : SameFields b' b :=
+  ⟨h.stype, h.size, h.offset, h.nameOff, h.flags, h.addr, h.link, h.info, h.addrAlign, h.entSize⟩
+
+theorem SameFields.trans {a b c : SecBuf} (h1 : SameFields a b) (h2 : SameFields b c) : SameFields a c :=
+  ⟨h1.stype.trans h2.stype, h1.size.trans h2.size, h1.offset.trans h2.offset, h1.nameOff.trans h2.nameOff,
+   h1.flags.trans h2.flags, h1.addr.trans h2.addr, h1.link.trans h2.link, h1.info.trans h2.info,
+   h1.addrAlign.trans h2.addrAlign, h1.entSize.trans h2.entSize⟩
+
+/-- the all-zero section header without data ("absent") -/
+structure SecZero (b : SecBuf) : Prop where
+  stype : b.stype = 0
+  size : b.size = 0
+  offset : b.offset = 0
+  nameOff : b.nameOff = 0
+  flags : b.flags = 0
+  addr : b.addr = 0
+  link : b.link = 0
+  info : b.info = 0
+  addrAlign : b.addrAlign = 0
+  entSize : b.entSize = 0
+  data : b.data = none
+
+/-- the header fields the complete image holds in the table slot at `hdrOff` -/
+def trueShdr (c : Cls) (enc : Enc) (img : Bytes) (hdrOff : Int) : SecBuf :=
+  decodeShdr c enc (slice img hdrOff.toNat (shdrSize c)) (secB0 c [] 0 false 0)
+
+theorem decodeShdr_fields (c : Cls) (enc : Enc) (r : Bytes) (b b' : SecBuf) :
+    SameFields (decodeShdr c enc r b) (decodeShdr c enc r b') := by
+  cases c <;> constructor <;> rfl
+
+/-- Loading a section from the prefix yields either the zeroed header without data (the header
+    read came up short) or exactly the header fields of the complete image's table slot (which
+    then lies inside the prefix). -/
+theorem secLoad_prefix_hdr (c : Cls) (enc : Enc) (img : Bytes) (k : Nat) (ls : LoadSt) (hdrOff : Int)
+    (isLazy : Bool) (idx : Nat) (hs : ls.st.data = img.take k) :
+    SecZero (secLoad c enc [] ls hdrOff isLazy idx).2 ∨
+    (0 ≤ hdrOff ∧ hdrOff.toNat + shdrSize c ≤ k ∧
+      SameFields (secLoad c enc [] ls hdrOff isLazy idx).2 (trueShdr c enc img hdrOff)) := by
+  rw [secLoad_eq]
+  split
+  · left; constructor <;> rfl
+  · rename_i hg
+    right
+    have hgc : (hdrRead [] ls.st hdrOff (shdrSize c)).1.gcount = shdrSize c := by simpa using hg
+    obtain ⟨h0, hgot, hle, -, -⟩ := hdrRead_full ls.st hdrOff (shdrSize c)
+      (Nat.pos_of_ne_zero (shdrSize_ne_zero c)) hgc
+    have hl := take_length_le img k
+    rw [hs] at hgot hle
+    rw [slice_take (by omega)] at hgot
+    refine ⟨h0, by omega, ?_⟩
+    have hf : SameFields (secHdrOnly c enc [] (hdrRead [] ls.st hdrOff (shdrSize c)).1
+        (hdrRead [] ls.st hdrOff (shdrSize c)).2 (streamSizeOf [] ls.st).2 isLazy idx)
+        (trueShdr c enc img hdrOff) := by
+      unfold trueShdr
+      rw [← hgot]
+      exact SameFields.trans (by constructor <;> rfl) (decodeShdr_fields c enc _ _ _)
+    split
+    · exact SameFields.trans (by constructor <;> rfl)
+        (SameFields.trans (secGetData_sameHdr c [] _ _).fields hf)
+    · exact SameFields.trans (by constructor <;> rfl) hf
+
+theorem toNat_pos_of_ne_zero {x : BitVec 64} (h : x ≠ 0) : 0 < x.toNat := by
+  rcases Nat.eq_zero_or_pos x.toNat with h0 | h0
+  · exact absurd (BitVec.eq_of_toNat_eq (by simpa using h0)) h
+  · exact h0
+
+theorem slice_take_of_full {img : Bytes} {k off n : Nat} (h : (slice (img.take k) off n).length = n) :
+    slice (img.take k) off n = slice img off n ∧ (slice img off n).length = n ∧ (n ≠ 0 → off + n ≤ k) := by
+  have hl := take_length_le img k
+  rw [slice_length] at h
+  by_cases hn : n = 0
+  · subst hn; simp [slice]
+  · have : off + n ≤ k := by omega
+    refine ⟨slice_take this, ?_, fun _ => this⟩
+    rw [slice_length]; omega
+
+/-- a resident buffer of a section loaded from the prefix holds exactly the bytes of the
+    COMPLETE image in the section's range (plus the terminator), and a non-empty range lies
+    inside the prefix -/
+theorem LoadedSec.prefix_exact {img : Bytes} {k : Nat} {b : SecBuf} (h : LoadedSec [] b (img.take k))
+    {d : Bytes} (hd : b.data = some d) :
+    d = slice img b.offset.toNat b.size.toNat ++ [0] ∧
+    (slice img b.offset.toNat b.size.toNat).length = b.size.toNat ∧
+    (b.size ≠ 0 → b.offset.toNat + b.size.toNat ≤ k) := by
+  obtain ⟨h1, h2⟩ := h.exact d hd
+  simp only [dataOff_nil] at h1 h2
+  obtain ⟨e1, e2, e3⟩ := slice_take_of_full h2
+  refine ⟨by rw [h1, e1], e2, fun hz => e3 (by have := toNat_pos_of_ne_zero hz; omega)⟩
+
+theorem LoadedSeg.prefix_exact {img : Bytes} {k : Nat} {g : Seg} (h : LoadedSeg [] g (img.take k))
+    {d : Bytes} (hd : g.data = some d) :
+    d = slice img g.offset.toNat g.filesz.toNat ++ [0] ∧
+    (slice img g.offset.toNat g.filesz.toNat).length = g.filesz.toNat ∧
+    (g.filesz ≠ 0 → g.offset.toNat + g.filesz.toNat ≤ k) := by
+  obtain ⟨h1, h2⟩ := h.exact d hd
+  simp only [dataOff_nil] at h1 h2
+  obtain ⟨e1, e2, e3⟩ := slice_take_of_full h2
+  refine ⟨by rw [h1, e1], e2, fun hz => e3 (by have := toNat_pos_of_ne_zero hz; omega)⟩
+
+/-- **secLoad_prefix**: loading section `idx` from the prefix yields either the zero header
+    (short read; the F8 fix) or exactly the header fields of the complete image; its data is
+    `none`, or exactly the bytes the complete image has in the section's range. -/
+theorem secLoad_prefix (c : Cls) (enc : Enc) (img : Bytes) (k : Nat) (st : IStream) (hdrOff : Int)
+    (isLazy : Bool) (idx : Nat) (hs : st.data = img.take k) :
+    (SecZero (secLoad c enc [] { st := st } hdrOff isLazy idx).2 ∨
+      (0 ≤ hdrOff ∧ hdrOff.toNat + shdrSize c ≤ k ∧
+        SameFields (secLoad c enc [] { st := st } hdrOff isLazy idx).2 (trueShdr c enc img hdrOff))) ∧
+    ∀ d, (secLoad c enc [] { st := st } hdrOff isLazy idx).2.data = some d →
+      d = slice img (secLoad c enc [] { st := st } hdrOff isLazy idx).2.offset.toNat
+            (secLoad c enc [] { st := st } hdrOff isLazy idx).2.size.toNat ++ [0] ∧
+      ((secLoad c enc [] { st := st } hdrOff isLazy idx).2.size ≠ 0 →
+        (secLoad c enc [] { st := st } hdrOff isLazy idx).2.offset.toNat +
+          (secLoad c enc [] { st := st } hdrOff isLazy idx).2.size.toNat ≤ k) := by
+  refine ⟨secLoad_prefix_hdr c enc img k { st := st } hdrOff isLazy idx hs, ?_⟩
+  intro d hd
+  have hinv := C01.secLoad_inv c enc [] st hdrOff isLazy idx
+  rw [hs] at hinv
+  obtain ⟨h1, -, h3⟩ := LoadedSec.prefix_exact hinv hd
+  exact ⟨h1, h3⟩
+
+/-- a segment loaded from the prefix: its data is `none` or exactly the bytes of the complete
+    image in the segment's file range -/
+theorem segLoad_prefix (c : Cls) (enc : Enc) (img : Bytes) (k : Nat) (st : IStream) (hdrOff : Int)
+    (isLazy : Bool) (hs : st.data = img.take k) :
+    ∀ d, (segLoad c enc [] { st := st } hdrOff isLazy).2.1.data = some d →
+      d = slice img (segLoad c enc [] { st := st } hdrOff isLazy).2.1.offset.toNat
+            (segLoad c enc [] { st := st } hdrOff isLazy).2.1.filesz.toNat ++ [0] ∧
+      ((segLoad c enc [] { st := st } hdrOff isLazy).2.1.filesz ≠ 0 →
+        (segLoad c enc [] { st := st } hdrOff isLazy).2.1.offset.toNat +
+          (segLoad c enc [] { st := st } hdrOff isLazy).2.1.filesz.toNat ≤ k) := by
+  intro d hd
+  have hinv := C01.segLoad_inv c enc [] st hdrOff isLazy
+  rw [hs] at hinv
+  obtain ⟨h1, -, h3⟩ := LoadedSeg.prefix_exact hinv hd
+  exact ⟨h1, h3⟩
+
+/-! ### the whole load of a prefix -/
+
+/-- memory safety of loading a prefix: C01 instantiated -/
+theorem prefix_load_safe (o : Obj) (img : Bytes) (k : Nat) (kind : StreamKind) (isLazy : Bool) :
+    ∃ r, load o { data := img.take k, kind := kind } isLazy = .ok r :=
+  C01.load_total o (img.take k) kind isLazy
+
+/-- **exposes_only_file_bytes**: whatever a load of the prefix (and any later interleaving of data
+    requests, see `C01.getData_inv`) exposes as section or segment data is, byte for byte, what the
+    COMPLETE image holds in that range, and a non-empty range lies inside the prefix: no section
+    or segment ever exposes bytes that are not in the file. -/
+theorem exposes_only_file_bytes (o : Obj) (img : Bytes) (k : Nat) (kind : StreamKind) (isLazy : Bool)
+    (r : LoadRes) (htr : o.trans = []) (h : load o { data := img.take k, kind := kind } isLazy = .ok r) :
+    (∀ b ∈ r.obj.secs, ∀ d, b.data = some d →
+      d.take b.size.toNat = slice img b.offset.toNat b.size.toNat ∧
+      d.take b.size.toNat = slice (img.take k) b.offset.toNat b.size.toNat ∧
+      (b.size ≠ 0 → b.offset.toNat + b.size.toNat ≤ k)) ∧
+    (∀ g ∈ r.obj.segs, ∀ d, g.data = some d →
+      d.take g.filesz.toNat = slice img g.offset.toNat g.filesz.toNat ∧
+      d.take g.filesz.toNat = slice (img.take k) g.offset.toNat g.filesz.toNat ∧
+      (g.filesz ≠ 0 → g.offset.toNat + g.filesz.toNat ≤ k)) := by
+  obtain ⟨h1, h2, -⟩ := C01.load_inv o (img.take k) kind isLazy r h
+  rw [htr] at h1 h2
+  constructor
+  · intro b hb d hd
+    obtain ⟨e1, e2, e3⟩ := LoadedSec.prefix_exact (h1 b hb) hd
+    have e4 := ((h1 b hb).bytes d hd).1
+    simp only [dataOff_nil] at e4
+    exact ⟨by rw [e1]; exact List.take_left' e2, e4, e3⟩
+  · intro g hg d hd
+    obtain ⟨e1, e2, e3⟩ := LoadedSeg.prefix_exact (h2 g hg) hd
+    have e4 := ((h2 g hg).bytes d hd).1
+    simp only [dataOff_nil] at e4
+    exact ⟨by rw [e1]; exact List.take_left' e2, e4, e3⟩
+
+/-- the same after any interleaving of data requests / frees on the loaded prefix -/
+theorem exposes_only_file_bytes_requests (o : Obj) (img : Bytes) (k : Nat) (qs : List C01.Req)
+    (htr : o.trans = []) (h : C01.ObjInv o (img.take k)) :
+    ∀ b ∈ (C01.requests o qs).1.secs, ∀ d, b.data = some d →
+      d.take b.size.toNat = slice img b.offset.toNat b.size.toNat ∧
+      (b.size ≠ 0 → b.offset.toNat + b.size.toNat ≤ k) := by
+  intro b hb d hd
+  have hi := (C01.getData_inv (img.take k) qs o h).1
+  have ht : (C01.requests o qs).1.trans = [] := by
+    clear hb hi
+    induction qs generalizing o with
+    | nil => exact htr
+    | cons q qs ih =>
+      have hq := C01.request_inv o (img.take k) q h
+      exact ih _ (hq.2.1.trans htr) hq.1
+  have hb' := hi.secs b hb
+  rw [ht] at hb'
+  obtain ⟨e1, e2, e3⟩ := LoadedSec.prefix_exact hb' hd
+  exact ⟨by rw [e1]; exact List.take_left' e2, e3⟩
+
+/-! ## the two-run ladder: the load of the prefix against the load of the complete image -/
+
+/-- element-wise relation of two lists -/
+inductive ListRel {α β : Type} (R : α → β → Prop) : List α → List β → Prop
+  | nil : ListRel R [] []
+  | cons {a b as bs} : R a b → ListRel R as bs → ListRel R (a :: as) (b :: bs)
+
+namespace ListRel
+variable {α β : Type} {R : α → β → Prop}
+
+theorem length_eq {as : List α} {bs : List β} (h : ListRel R as bs) : as.length = bs.length := by
+  induction h with
+  | nil => rfl
+  | cons _ _ ih => simp [ih]
+
+theorem append {as as' : List α} {bs bs' : List β} (h : ListRel R as bs) (h' : ListRel R as' bs') :
+    ListRel R (as ++ as') (bs ++ bs') := by
+  induction h with
+  | nil => exact h'
+  | cons hr _ ih => exact .cons hr ih
+
+theorem reverse {as : List α} {bs : List β} (h : ListRel R as bs) : ListRel R as.reverse bs.reverse := by
+  induction h with
+  | nil => exact .nil
+  | cons hr _ ih => rw [List.reverse_cons, List.reverse_cons]; exact ih.append (.cons hr .nil)
+
+theorem mono {R' : α → β → Prop} {as : List α} {bs : List β} (h : ListRel R as bs)
+    (hm : ∀ a b, R a b → R' a b) : ListRel R' as bs := by
+  induction h with
+  | nil => exact .nil
+  | cons hr _ ih => exact .cons (hm _ _ hr) ih
+
+theorem map {γ δ : Type} {R' : γ → δ → Prop} {as : List α} {bs : List β} (f : α → γ) (g : β → δ)
+    (h : ListRel R as bs) (hm : ∀ a b, R a b → R' (f a) (g b)) : ListRel R' (as.map f) (bs.map g) := by
+  induction h with
+  | nil => exact .nil
+  | cons hr _ ih => exact .cons (hm _ _ hr) ih
+
+theorem getElem? {as : List α} {bs : List β} (h : ListRel R as bs) (i : Nat) :
+    (as[i]? = none ∧ bs[i]? = none) ∨ ∃ a b, as[i]? = some a ∧ bs[i]? = some b ∧ R a b := by
+  induction h generalizing i with
+  | nil => left; simp
+  | cons hr _ ih =>
+    cases i with
+    | zero => right; exact ⟨_, _, rfl, rfl, hr⟩
+    | succ i => simpa using ih i
+
+theorem set {as : List α} {bs : List β} (h : ListRel R as bs) (i : Nat) {a : α} {b : β} (hr : R a b) :
+    ListRel R (as.set i a) (bs.set i b) := by
+  induction h generalizing i with
+  | nil => exact .nil
+  | cons hr' _ ih =>
+    cases i with
+    | zero => exact .cons hr ‹_›
+    | succ i => exact .cons hr' (ih i)
+
+theorem filter_map {γ : Type} {as : List α} {bs : List β} (h : ListRel R as bs) (p : α → Bool) (q : β → Bool)
+    (f : α → γ) (g : β → γ) (hpq : ∀ a b, R a b → p a = q b ∧ f a = g b) :
+    (as.filter p).map f = (bs.filter q).map g := by
+  induction h with
+  | nil => rfl
+  | cons hr _ ih =>
+    obtain ⟨h1, h2⟩ := hpq _ _ hr
+    simp only [List.filter_cons, h1]
+    split
+    · simp [h2, ih]
+    · exact ih
+
+end ListRel
+
+/-- stream of the prefix run vs stream of the run on the complete image: same kind, and the
+    complete run has not failed unless the prefix run has -/
+structure Sim (img : Bytes) (k : Nat) (sp sf : IStream) : Prop where
+  dp : sp.data = img.take k
+  df : sf.data = img
+  kind : sp.kind = sf.kind
+  fail : sf.fail = true → sp.fail = true
+
+theorem read_gcount_ne (s : IStream) (n : Nat) (h : (s.read n).1.gcount ≠ n) : (s.read n).1.fail = true := by
+  unfold IStream.read at h ⊢
+  split
+  · rfl
+  · split
+    · rename_i h1 h2; simp [h1, h2] at h
+    · rfl
+
+/-- `seekg(p); read(n)` on both streams: the prefix run either fails (and stays failed), or both
+    reads are complete and deliver the same bytes — the image's bytes at `p` -/
+theorem seekRead_sim {img : Bytes} {k : Nat} {sp sf : IStream} (h : Sim img k sp sf) (p : Int) (n : Nat)
+    (hn : 0 < n) :
+    Sim img k ((sp.seekg p).read n).1 ((sf.seekg p).read n).1 ∧
+    (((sp.seekg p).read n).1.gcount = n →
+      ((sf.seekg p).read n).1.gcount = n ∧ ((sf.seekg p).read n).2 = ((sp.seekg p).read n).2 ∧
+      ((sp.seekg p).read n).1.fail = false ∧ ((sf.seekg p).read n).1.fail = false ∧
+      0 ≤ p ∧ p.toNat + n ≤ k ∧ ((sp.seekg p).read n).2 = slice img p.toNat n) ∧
+    (((sp.seekg p).read n).1.gcount ≠ n → ((sp.seekg p).read n).1.fail = true) := by
+  have hl := take_length_le img k
+  by_cases hg : ((sp.seekg p).read n).1.gcount = n
+  · have hgood := IStream.good_of_gcount _ _ (by rw [hg]; omega)
+    obtain ⟨hp0, hpos, hspf⟩ := IStream.seekg_good _ _ hgood
+    obtain ⟨hgot, hle⟩ := IStream.read_full _ _ hg hn
+    rw [hpos] at hgot hle
+    simp only [IStream.seekg_data, h.dp] at hgot hle
+    have hsff : sf.fail = false := by
+      cases hx : sf.fail
+      · rfl
+      · rw [h.fail hx] at hspf; exact absurd hspf (by decide)
+    have e1 : sp.seekg p = { sp with eof := false, pos := p.toNat } :=
+      IStream.seekg_ok sp p hspf hp0 (by rw [h.dp]; omega)
+    have e2 : sf.seekg p = { sf with eof := false, pos := p.toNat } :=
+      IStream.seekg_ok sf p hsff hp0 (by rw [h.df]; omega)
+    have r1 := IStream.read_ok { sp with eof := false, pos := p.toNat } n
+      (by simp [IStream.good, hspf]) (by simp only [h.dp]; omega)
+    have r2 := IStream.read_ok { sf with eof := false, pos := p.toNat } n
+      (by simp [IStream.good, hsff]) (by simp only [h.df]; omega)
+    rw [e1, e2, r1, r2]
+    simp only [h.dp, h.df]
+    refine ⟨⟨rfl, rfl, h.kind, fun hx => by rw [hsff] at hx; exact absurd hx (by decide)⟩, ?_, ?_⟩
+    · intro _
+      exact ⟨trivial, (slice_take (by omega)).symm, hspf, hsff, hp0, by omega, slice_take (by omega)⟩
+    · intro hx; exact absurd rfl hx
+  · have hf := read_gcount_ne _ _ hg
+    refine ⟨⟨by simp [h.dp], by simp [h.df], by simp [h.kind], fun _ => hf⟩, fun hx => absurd hx hg, fun _ => hf⟩
+
+theorem streamSizeOf_nil_fail (s : IStream) : (streamSizeOf [] s).1.fail = s.fail := by
+  rw [streamSizeOf_nil]; cases hf : s.fail <;> simp [hf]
+
+theorem streamSizeOf_sim {img : Bytes} {k : Nat} {sp sf : IStream} (h : Sim img k sp sf) :
+    Sim img k (streamSizeOf [] sp).1 (streamSizeOf [] sf).1 :=
+  ⟨by simp [h.dp], by simp [h.df], by simp [h.kind], by
+    rw [streamSizeOf_nil_fail, streamSizeOf_nil_fail]; exact h.fail⟩
+
+/-- reading a table entry in both runs -/
+theorem hdrRead_sim {img : Bytes} {k : Nat} {sp sf : IStream} (h : Sim img k sp sf) (p : Int) (n : Nat)
+    (hn : 0 < n) :
+    Sim img k (hdrRead [] sp p n).1 (hdrRead [] sf p n).1 ∧
+    ((hdrRead [] sp p n).1.gcount = n →
+      (hdrRead [] sf p n).1.gcount = n ∧ (hdrRead [] sf p n).2 = (hdrRead [] sp p n).2 ∧
+      (hdrRead [] sp p n).1.fail = false ∧ (hdrRead [] sf p n).1.fail = false ∧
+      0 ≤ p ∧ p.toNat + n ≤ k ∧ (hdrRead [] sp p n).2 = slice img p.toNat n) ∧
+    ((hdrRead [] sp p n).1.gcount ≠ n → (hdrRead [] sp p n).1.fail = true) :=
+  seekRead_sim (streamSizeOf_sim h) p n hn
+
+/-! ### one section in both runs -/
+
+theorem g_off_gt_of_le {off ss : BitVec 64} (h : off.toNat ≤ ss.toNat) :
+    sec64_load_data_off_gt off ss = false := by
+  simp only [sec64_load_data_off_gt, BitVec.ult, decide_eq_false_iff_not]; omega
+
+theorem g_size_gt_of_le {size ss off : BitVec 64} (h : off.toNat + size.toNat ≤ ss.toNat) :
+    sec64_load_data_size_gt size ss off = false := by
+  have h1 := size.isLt; have h2 := ss.isLt; have h3 := off.isLt
+  simp only [sec64_load_data_size_gt, BitVec.ult, Bool.or_eq_false_iff, decide_eq_false_iff_not,
+    BitVec.toNat_sub, Nat.reducePow] at *
+  omega
+
+theorem loadDataPure_sameHdr (img : Bytes) (b : SecBuf) : SameHdr (loadDataPure img b).1 b := by
+  unfold loadDataPure
+  repeat' split
+  all_goals (constructor <;> rfl)
+
+theorem getDataPure_sameHdr (img : Bytes) (b : SecBuf) : SameHdr (getDataPure img b) b := by
+  unfold getDataPure
+  split
+  · split
+    · exact loadDataPure_sameHdr img b
+    · exact SameHdr.trans (by constructor <;> rfl) (loadDataPure_sameHdr img b)
+  · exact SameHdr.refl b
+
+/-- a `SHT_NULL` / `SHT_NOBITS` section never gets data -/
+theorem loadDataPure_nullish (img : Bytes) (b : SecBuf) (h : isNullOrNobitsTy b.stype = true) :
+    (loadDataPure img b).1.data = b.data := by
+  unfold loadDataPure
+  repeat' split
+  all_goals first | rfl | simp_all
+
+theorem getDataPure_nullish (img : Bytes) (b : SecBuf) (h : isNullOrNobitsTy b.stype = true) :
+    (getDataPure img b).data = b.data := by
+  unfold getDataPure
+  split
+  · split
+    · exact loadDataPure_nullish img b h
+    · exact loadDataPure_nullish img b h
+  · rfl
+
+/-- How a section of the prefix run relates to the same section of the complete run.
+    `failed` = the prefix run's stream has failed by now. -/
+inductive SecRel (failed : Bool) (bp bf : SecBuf) : Prop
+  /-- the header read came up short (only after the prefix stream failed): the zeroed header -/
+  | zero (hf : failed = true) (hz : SecZero bp)
+  /-- same header; the prefix run has no data and will never get any -/
+  | never (hs : SameFields bp bf) (hd : bp.data = none)
+      (hx : bp.canLoad = false ∨ isNullOrNobitsTy bp.stype = true)
+  /-- same header, same data pointer contents, same residency flags -/
+  | both (hs : SameFields bp bf) (hd : bp.data = bf.data) (hl : bp.isLoaded = bf.isLoaded)
+      (hc : bp.canLoad = bf.canLoad) (hn : bp.isLoaded = false → bp.data = none)
+
+theorem SecRel.mono {f f' : Bool} {bp bf : SecBuf} (h : SecRel f bp bf) (hff : f = true → f' = true) :
+    SecRel f' bp bf := by
+  cases h with
+  | zero hf hz => exact .zero (hff hf) hz
+  | never hs hd hx => exact .never hs hd hx
+  | both hs hd hl hc hn => exact .both hs hd hl hc hn
+
+/-- what the property demands of a section of the prefix run: header all-zero or identical,
+    data pointer null or the same bytes -/
+theorem SecRel.sound {f : Bool} {bp bf : SecBuf} (h : SecRel f bp bf) :
+    (SecZero bp ∨ SameFields bp bf) ∧ (bp.data = none ∨ bp.data = bf.data) := by
+  cases h with
+  | zero hf hz => exact ⟨Or.inl hz, Or.inl hz.data⟩
+  | never hs hd hx => exact ⟨Or.inr hs, Or.inl hd⟩
+  | both hs hd hl hc hn => exact ⟨Or.inr hs, Or.inr hd⟩
+
+theorem zero_nullish {b : SecBuf} (h : SecZero b) : isNullOrNobitsTy b.stype = true := by
+  rw [h.stype]; decide
+
+theorem SecZero.of_sameHdr {b' b : SecBuf} (h : SecZero b) (hs : SameHdr b' b) (hd : b'.data = b.data) :
+    SecZero b' :=
+  ⟨hs.stype.trans h.stype, hs.size.trans h.size, hs.offset.trans h.offset, hs.nameOff.trans h.nameOff,
+   hs.flags.trans h.flags, hs.addr.trans h.addr, hs.link.trans h.link, hs.info.trans h.info,
+   hs.addrAlign.trans h.addrAlign, hs.entSize.trans h.entSize, hd.trans h.data⟩
+
+theorem SameFields.symm {a b : SecBuf} (h : SameFields a b) : SameFields b a :=
+  ⟨h.stype.symm, h.size.symm, h.offset.symm, h.nameOff.symm, h.flags.symm, h.addr.symm, h.link.symm,
+   h.info.symm, h.addrAlign.symm, h.entSize.symm⟩
+
+/-- a simultaneous `get_data()` in both runs keeps the relation -/
+theorem getDataPure_rel {img : Bytes} {k : Nat} {f : Bool} {bp bf : SecBuf} (h : SecRel f bp bf)
+    (hp : LoadedSec [] bp (img.take k)) (hf : LoadedSec [] bf img)
+    (hlen : img.length < 9223372036854775808) :
+    SecRel f (getDataPure (img.take k) bp) (getDataPure img bf) := by
+  have hl := take_length_le img k
+  have hPs := (getDataPure_sameHdr (img.take k) bp)
+  have hFs := (getDataPure_sameHdr img bf)
+  cases h with
+  | zero hfl hz =>
+    exact .zero hfl (hz.of_sameHdr hPs (getDataPure_nullish _ _ (zero_nullish hz)))
+  | never hs hd hx =>
+    refine .never (SameFields.trans hPs.fields (SameFields.trans hs hFs.fields.symm)) ?_ ?_
+    · rcases hx with hx | hx
+      · unfold getDataPure; simp [hx, hd]
+      · rw [getDataPure_nullish _ _ hx]; exact hd
+    · rcases hx with hx | hx
+      · left; unfold getDataPure; simp [hx]
+      · right; rw [hPs.stype]; exact hx
+  | both hs hd hlo hc hn =>
+    have hsf' := SameFields.trans hPs.fields (SameFields.trans hs hFs.fields.symm)
+    by_cases hpend : (!bp.isLoaded && bp.canLoad) = true
+    · -- both pending
+      have hpendf : (!bf.isLoaded && bf.canLoad) = true := by rw [← hlo, ← hc]; exact hpend
+      have hld : bp.isLoaded = false := by
+        cases hx : bp.isLoaded <;> simp [hx] at hpend ⊢
+      have hcl : bp.canLoad = true := by
+        cases hx : bp.canLoad <;> simp [hx] at hpend ⊢
+      have hdn : bp.data = none := hn hld
+      have hdnf : bf.data = none := hd ▸ hdn
+      by_cases hnull : isNullOrNobitsTy bp.stype = true
+      · exact .never hsf' (by rw [getDataPure_nullish _ _ hnull]; exact hdn)
+          (Or.inr (by rw [hPs.stype]; exact hnull))
+      · have hnn : isNullOrNobitsTy bp.stype = false := by
+          cases hx : isNullOrNobitsTy bp.stype
+          · rfl
+          · exact absurd hx hnull
+        have hnnf : isNullOrNobitsTy bf.stype = false := hs.stype ▸ hnn
+        -- recorded stream sizes
+        have hssp : bp.streamSize = BitVec.ofNat 64 (img.take k).length := by
+          rcases hp.ss with ⟨-, h1⟩ | ⟨-, h2⟩
+          · exact h1
+          · have := (h2 rfl).1; rw [hnn] at this; exact absurd this (by decide)
+        have hssf : bf.streamSize = BitVec.ofNat 64 img.length := by
+          rcases hf.ss with ⟨-, h1⟩ | ⟨-, h2⟩
+          · exact h1
+          · have := (h2 rfl).1; rw [hnnf] at this; exact absurd this (by decide)
+        -- the prefix run refuses, or both load the same bytes
+        by_cases hok : (loadDataPure (img.take k) bp).2 = true
+        · -- the prefix run loaded: unfold both
+          have key : (loadDataPure (img.take k) bp).1.data =
+              some (slice (img.take k) bp.offset.toNat bp.size.toNat ++ [0]) ∧
+              bp.offset.toNat + bp.size.toNat ≤ (img.take k).length ∧
+              sec64_load_data_sizet bp.size = false := by
+            unfold loadDataPure at hok ⊢
+            by_cases h1 : sec64_load_data_off_gt bp.offset bp.streamSize = true
+            · simp [h1] at hok
+            by_cases h2 : sec64_load_data_size_gt bp.size bp.streamSize bp.offset = true
+            · simp [h1, h2] at hok
+            by_cases h4 : sec64_load_data_sizet bp.size = true
+            · simp [h1, h2, h4, hdn, hnn] at hok
+            have hle := g_size_gt_false (by simpa using h2) (g_off_gt_false (by simpa using h1))
+            rw [hssp, toNat_ofNat_len (by omega)] at hle
+            simp [h1, h2, h4, hdn, hnn]
+            rw [List.length_take] at hle; exact hle
+          obtain ⟨kd, kle, ksz⟩ := key
+          have hfull : loadDataPure img bf =
+              ({ bf with data := some (slice img bf.offset.toNat bf.size.toNat ++ [0]),
+                         dataSize := bf.size, isLoaded := true }, true) := by
+            unfold loadDataPure
+            have hle' : bf.offset.toNat + bf.size.toNat ≤ bf.streamSize.toNat := by
+              rw [hssf, toNat_ofNat_len (by omega), ← hs.offset, ← hs.size]; omega
+            rw [if_neg (by rw [g_off_gt_of_le (by omega)]; decide),
+              if_neg (by rw [g_size_gt_of_le hle']; decide),
+              if_pos (by simp [hdnf, hnnf]), if_neg (by rw [← hs.size, ksz]; decide)]
+          have hPd : (getDataPure (img.take k) bp).data =
+              some (slice (img.take k) bp.offset.toNat bp.size.toNat ++ [0]) := by
+            unfold getDataPure; rw [if_pos hpend, if_pos hok]; exact kd
+          have hFd : (getDataPure img bf).data = some (slice img bf.offset.toNat bf.size.toNat ++ [0]) := by
+            unfold getDataPure; rw [if_pos hpendf, hfull]; rfl
+          have hPl : (getDataPure (img.take k) bp).isLoaded = true := by
+            unfold getDataPure loadDataPure at *
+            by_cases h1 : sec64_load_data_off_gt bp.offset bp.streamSize = true
+            · simp [h1] at hok
+            by_cases h2 : sec64_load_data_size_gt bp.size bp.streamSize bp.offset = true
+            · simp [h1, h2] at hok
+            simp [hpend, h1, h2, ksz, hdn, hnn]
+          have hFl : (getDataPure img bf).isLoaded = true := by
+            unfold getDataPure; rw [if_pos hpendf, hfull]; rfl
+          have hPc : (getDataPure (img.take k) bp).canLoad = bp.canLoad := by
+            unfold getDataPure loadDataPure at *
+            by_cases h1 : sec64_load_data_off_gt bp.offset bp.streamSize = true
+            · simp [h1] at hok
+            by_cases h2 : sec64_load_data_size_gt bp.size bp.streamSize bp.offset = true
+            · simp [h1, h2] at hok
+            simp [hpend, h1, h2, ksz, hdn, hnn]
+          have hFc : (getDataPure img bf).canLoad = bf.canLoad := by
+            unfold getDataPure; rw [if_pos hpendf, hfull]; rfl
+          refine .both hsf' ?_ (hPl.trans hFl.symm) (by rw [hPc, hFc]; exact hc)
+            (fun hx => by rw [hPl] at hx; exact absurd hx (by decide))
+          rw [hPd, hFd, ← hs.offset, ← hs.size, slice_take (by omega)]
+        · -- the prefix run refused: it is dead from now on
+          have hPd : (loadDataPure (img.take k) bp).1.data = none := by
+            unfold loadDataPure at hok ⊢
+            repeat' split
+            all_goals first | exact hdn | simp_all
+          refine .never hsf' ?_ (Or.inl ?_)
+          · unfold getDataPure; rw [if_pos hpend, if_neg hok]; exact hPd
+          · unfold getDataPure; rw [if_pos hpend, if_neg hok]
+    · -- neither run does anything
+      have hpendf : ¬ (!bf.isLoaded && bf.canLoad) = true := by rw [← hlo, ← hc]; exact hpend
+      have e1 : getDataPure (img.take k) bp = bp := by unfold getDataPure; rw [if_neg hpend]
+      have e2 : getDataPure img bf = bf := by unfold getDataPure; rw [if_neg hpendf]
+      rw [e1, e2]
+      exact .both hs hd hlo hc hn
+
+/-- loader states of the two runs -/
+structure Sim2 (img : Bytes) (k : Nat) (kind : StreamKind) (lsp lsf : LoadSt) : Prop where
+  p : StOk [] (img.take k) kind lsp
+  f : StOk [] img kind lsf
+  fail : lsf.st.fail = true → lsp.st.fail = true
+
+theorem Sim2.sim {img k kind lsp lsf} (h : Sim2 img k kind lsp lsf) : Sim img k lsp.st lsf.st :=
+  ⟨h.p.data, h.f.data, h.p.kind.trans h.f.kind.symm, h.fail⟩
+
+theorem hdrRead_failed_fail (tr : List Trans) (st : IStream) (p : Int) (n : Nat) (h : st.fail = true) :
+    (hdrRead tr st p n).1.fail = true := by
+  have h1 := streamSizeOf_fail tr st h
+  have h2 := IStream.seekg_fail _ (trApply tr p) h1
+  have h3 : ((streamSizeOf tr st).1.seekg (trApply tr p)).good = false := by simp [IStream.good, h2]
+  exact (IStream.read_not_good _ n h3).2.1
+
+/-- once the stream has failed, `section_impl::load` leaves it failed -/
+theorem secLoad_fail_mono (c : Cls) (enc : Enc) (ls : LoadSt) (hdrOff : Int) (isLazy : Bool) (idx : Nat)
+    (h : ls.st.fail = true) : (secLoad c enc [] ls hdrOff isLazy idx).1.st.fail = true := by
+  rw [secLoad_eq]
+  have hg := (hdrRead_failed [] ls.st hdrOff (shdrSize c) h).1
+  rw [if_pos (by rw [hg]; have := shdrSize_ne_zero c; simp; omega)]
+  exact hdrRead_failed_fail [] ls.st hdrOff (shdrSize c) h
+
+@[simp] theorem secHdrOnly_isLoaded (c enc tr st got ss isLazy idx) :
+    (secHdrOnly c enc tr st got ss isLazy idx).isLoaded = false := by simp [secHdrOnly, secB0]
+@[simp] theorem secHdrOnly_canLoad (c enc tr st got ss isLazy idx) :
+    (secHdrOnly c enc tr st got ss isLazy idx).canLoad = true := by simp [secHdrOnly, secB0]
+@[simp] theorem secHdrOnly_data (c enc tr st got ss isLazy idx) :
+    (secHdrOnly c enc tr st got ss isLazy idx).data = none := by simp [secHdrOnly, secB0]
+
+theorem secHdrOnly_fields (c enc tr st st' got ss ss' isLazy idx) :
+    SameFields (secHdrOnly c enc tr st got ss isLazy idx) (secHdrOnly c enc tr st' got ss' isLazy idx) :=
+  SameFields.trans (by constructor <;> rfl)
+    (SameFields.trans (decodeShdr_fields c enc got _ _) (by constructor <;> rfl))
+
+theorem SecRel.addrSet {f : Bool} {bp bf : SecBuf} (h : SecRel f bp bf) :
+    SecRel f { bp with addrSet := true } { bf with addrSet := true } := by
+  cases h with
+  | zero hf hz => exact .zero hf ⟨hz.stype, hz.size, hz.offset, hz.nameOff, hz.flags, hz.addr, hz.link,
+      hz.info, hz.addrAlign, hz.entSize, hz.data⟩
+  | never hs hd hx => exact .never ⟨hs.stype, hs.size, hs.offset, hs.nameOff, hs.flags, hs.addr, hs.link,
+      hs.info, hs.addrAlign, hs.entSize⟩ hd hx
+  | both hs hd hl hc hn => exact .both ⟨hs.stype, hs.size, hs.offset, hs.nameOff, hs.flags, hs.addr, hs.link,
+      hs.info, hs.addrAlign, hs.entSize⟩ hd hl hc hn
+
+/-- **one section in both runs**: the loader states stay related, and the section of the prefix
+    run is the zeroed one (only if the prefix stream failed), or has the same header with data
+    absent or identical -/
+theorem secLoad_sim (c : Cls) (enc : Enc) (img : Bytes) (k : Nat) (kind : StreamKind)
+    (hlen : img.length < 9223372036854775808) (lsp lsf : LoadSt) (h : Sim2 img k kind lsp lsf)
+    (hdrOff : Int) (isLazy : Bool) (idx : Nat) :
+    Sim2 img k kind (secLoad c enc [] lsp hdrOff isLazy idx).1 (secLoad c enc [] lsf hdrOff isLazy idx).1 ∧
+    SecRel (secLoad c enc [] lsp hdrOff isLazy idx).1.st.fail
+      (secLoad c enc [] lsp hdrOff isLazy idx).2 (secLoad c enc [] lsf hdrOff isLazy idx).2 := by
+  have hlk := take_length_le img k
+  obtain ⟨-, hfull, hshort⟩ := hdrRead_sim h.sim hdrOff (shdrSize c) (Nat.pos_of_ne_zero (shdrSize_ne_zero c))
+  have specP := secLoad_spec c enc [] lsp hdrOff isLazy idx (img.take k) kind h.p
+  have specF := secLoad_spec c enc [] lsf hdrOff isLazy idx img kind h.f
+  by_cases hg : (hdrRead [] lsp.st hdrOff (shdrSize c)).1.gcount = shdrSize c
+  · obtain ⟨g1, g2, g3, g4, -, -, -⟩ := hfull hg
+    have hnz := shdrSize_ne_zero c
+    by_cases he : sec64_load_eager isLazy false = true
+    · -- eager: both runs request the data
+      have eP : secLoad c enc [] lsp hdrOff isLazy idx =
+          ((secGetData c [] { lsp with st := (hdrRead [] lsp.st hdrOff (shdrSize c)).1 }
+              (secHdrOnly c enc [] (hdrRead [] lsp.st hdrOff (shdrSize c)).1
+                (hdrRead [] lsp.st hdrOff (shdrSize c)).2 (streamSizeOf [] lsp.st).2 isLazy idx)).1,
+           { (secGetData c [] { lsp with st := (hdrRead [] lsp.st hdrOff (shdrSize c)).1 }
+              (secHdrOnly c enc [] (hdrRead [] lsp.st hdrOff (shdrSize c)).1
+                (hdrRead [] lsp.st hdrOff (shdrSize c)).2 (streamSizeOf [] lsp.st).2 isLazy idx)).2
+             with addrSet := true }) := by
+        rw [secLoad_eq, if_neg (by simp [hg]), secHdrOnly_isLoaded, if_pos he]
+      have eF : secLoad c enc [] lsf hdrOff isLazy idx =
+          ((secGetData c [] { lsf with st := (hdrRead [] lsf.st hdrOff (shdrSize c)).1 }
+              (secHdrOnly c enc [] (hdrRead [] lsf.st hdrOff (shdrSize c)).1
+                (hdrRead [] lsf.st hdrOff (shdrSize c)).2 (streamSizeOf [] lsf.st).2 isLazy idx)).1,
+           { (secGetData c [] { lsf with st := (hdrRead [] lsf.st hdrOff (shdrSize c)).1 }
+              (secHdrOnly c enc [] (hdrRead [] lsf.st hdrOff (shdrSize c)).1
+                (hdrRead [] lsf.st hdrOff (shdrSize c)).2 (streamSizeOf [] lsf.st).2 isLazy idx)).2
+             with addrSet := true }) := by
+        rw [secLoad_eq, if_neg (by simp [g1]), secHdrOnly_isLoaded, if_pos he]
+      have iP := secHdrOnly_inv c enc [] lsp.st hdrOff isLazy idx (img.take k) h.p.data (by rw [hg]; exact hnz)
+      have iF := secHdrOnly_inv c enc [] lsf.st hdrOff isLazy idx img h.f.data (by rw [g1]; exact hnz)
+      obtain ⟨pP, fP⟩ := secGetData_pure c { lsp with st := (hdrRead [] lsp.st hdrOff (shdrSize c)).1 } _
+        (img.take k) (by simp [h.p.data]) iP (by omega)
+      obtain ⟨pF, fF⟩ := secGetData_pure c { lsf with st := (hdrRead [] lsf.st hdrOff (shdrSize c)).1 } _
+        img (by simp [h.f.data]) iF hlen
+      have rel0 : SecRel false
+          (secHdrOnly c enc [] (hdrRead [] lsp.st hdrOff (shdrSize c)).1
+            (hdrRead [] lsp.st hdrOff (shdrSize c)).2 (streamSizeOf [] lsp.st).2 isLazy idx)
+          (secHdrOnly c enc [] (hdrRead [] lsf.st hdrOff (shdrSize c)).1
+            (hdrRead [] lsf.st hdrOff (shdrSize c)).2 (streamSizeOf [] lsf.st).2 isLazy idx) := by
+        rw [g2]
+        exact .both (secHdrOnly_fields ..) (by simp) (by simp) (by simp) (fun _ => by simp)
+      have rel1 := getDataPure_rel rel0 iP iF hlen
+      rw [← pP, ← pF] at rel1
+      have hPf : (secLoad c enc [] lsp hdrOff isLazy idx).1.st.fail = false := by rw [eP]; exact fP.trans g3
+      have hFf : (secLoad c enc [] lsf hdrOff isLazy idx).1.st.fail = false := by rw [eF]; exact fF.trans g4
+      refine ⟨⟨specP.1, specF.1, fun hx => by rw [hFf] at hx; exact absurd hx (by decide)⟩, ?_⟩
+      rw [hPf, eP, eF]
+      exact rel1.addrSet
+    · -- lazy: header only
+      have eP : secLoad c enc [] lsp hdrOff isLazy idx =
+          ({ lsp with st := (hdrRead [] lsp.st hdrOff (shdrSize c)).1 },
+           { secHdrOnly c enc [] (hdrRead [] lsp.st hdrOff (shdrSize c)).1
+                (hdrRead [] lsp.st hdrOff (shdrSize c)).2 (streamSizeOf [] lsp.st).2 isLazy idx
+             with addrSet := true }) := by
+        rw [secLoad_eq, if_neg (by simp [hg]), secHdrOnly_isLoaded, if_neg he]
+      have eF : secLoad c enc [] lsf hdrOff isLazy idx =
+          ({ lsf with st := (hdrRead [] lsf.st hdrOff (shdrSize c)).1 },
+           { secHdrOnly c enc [] (hdrRead [] lsf.st hdrOff (shdrSize c)).1
+                (hdrRead [] lsf.st hdrOff (shdrSize c)).2 (streamSizeOf [] lsf.st).2 isLazy idx
+             with addrSet := true }) := by
+        rw [secLoad_eq, if_neg (by simp [g1]), secHdrOnly_isLoaded, if_neg he]
+      have hPf : (secLoad c enc [] lsp hdrOff isLazy idx).1.st.fail = false := by rw [eP]; exact g3
+      have hFf : (secLoad c enc [] lsf hdrOff isLazy idx).1.st.fail = false := by rw [eF]; exact g4
+      refine ⟨⟨specP.1, specF.1, fun hx => by rw [hFf] at hx; exact absurd hx (by decide)⟩, ?_⟩
+      rw [hPf, eP, eF, g2]
+      exact (SecRel.both (secHdrOnly_fields ..) (by simp) (by simp) (by simp) (fun _ => by simp)).addrSet
+  · -- the prefix run's header read came up short: zeroed section, failed stream
+    have hfl := hshort hg
+    have eP : secLoad c enc [] lsp hdrOff isLazy idx =
+        ({ lsp with st := (hdrRead [] lsp.st hdrOff (shdrSize c)).1 },
+         { secB0 c [] (streamSizeOf [] lsp.st).2 isLazy idx with addrSet := true }) := by
+      rw [secLoad_eq, if_pos (by simp [hg])]
+    have hPf : (secLoad c enc [] lsp hdrOff isLazy idx).1.st.fail = true := by rw [eP]; exact hfl
+    refine ⟨⟨specP.1, specF.1, fun _ => hPf⟩, ?_⟩
+    rw [hPf, eP]
+    exact .zero rfl (by constructor <;> rfl)
+
+/-! ### the section loop and the name resolution in both runs -/
+
+theorem secLoad_index (c : Cls) (enc : Enc) (tr : List Trans) (ls : LoadSt) (hdrOff : Int) (isLazy : Bool)
+    (idx : Nat) : (secLoad c enc tr ls hdrOff isLazy idx).2.index = idx := by
+  rw [secLoad_eq]
+  split
+  · rfl
+  · split
+    · exact (secGetData_sameHdr c tr _ _).index.trans (by simp [secHdrOnly, secB0])
+    · simp [secHdrOnly, secB0]
+
+/-- section relation used in the lists: `SecRel` plus the same index -/
+def SecRelI (f : Bool) (bp bf : SecBuf) : Prop := SecRel f bp bf ∧ bp.index = bf.index
+
+theorem loadSectionsLoop_sim (c : Cls) (enc : Enc) (img : Bytes) (k : Nat) (kind : StreamKind)
+    (hlen : img.length < 9223372036854775808) (isLazy : Bool) (shoff : Int) (entsize : Nat) :
+    ∀ (n i : Nat) (lsp lsf : LoadSt) (accp accf : List SecBuf), Sim2 img k kind lsp lsf →
+      ListRel (SecRelI lsp.st.fail) accp accf →
+      Sim2 img k kind (loadSectionsLoop c enc [] isLazy shoff entsize n i lsp accp).1
+        (loadSectionsLoop c enc [] isLazy shoff entsize n i lsf accf).1 ∧
+      ListRel (SecRelI (loadSectionsLoop c enc [] isLazy shoff entsize n i lsp accp).1.st.fail)
+        (loadSectionsLoop c enc [] isLazy shoff entsize n i lsp accp).2
+        (loadSectionsLoop c enc [] isLazy shoff entsize n i lsf accf).2 := by
+  intro n
+  induction n with
+  | zero =>
+    intro i lsp lsf accp accf hs hacc
+    exact ⟨hs, hacc.reverse⟩
+  | succ n ih =>
+    intro i lsp lsf accp accf hs hacc
+    rw [loadSectionsLoop_succ, loadSectionsLoop_succ]
+    obtain ⟨h1, h2⟩ := secLoad_sim c enc img k kind hlen lsp lsf hs
+      (shoff + (Int.ofNat i) * (Int.ofNat entsize)) isLazy i
+    apply ih _ _ _ _ _ h1
+    refine .cons ⟨h2, by rw [secLoad_index, secLoad_index]⟩ ?_
+    exact hacc.mono (fun a b hab => ⟨hab.1.mono (secLoad_fail_mono c enc lsp _ isLazy i), hab.2⟩)
+
+/-- the name a section gets from the string table -/
+def nameOf (strtab b : SecBuf) : Bytes :=
+  match getString strtab b.nameOff with
+  | .ok (some s) => s
+  | _ => b.name
+
+theorem withName_eq (strtab b : SecBuf) : withName strtab b = { b with name := nameOf strtab b } := by
+  unfold withName nameOf
+  cases getString strtab b.nameOff with
+  | error e => rfl
+  | ok r => cases r <;> rfl
+
+theorem SecRelI.name {f : Bool} {bp bf : SecBuf} (h : SecRelI f bp bf) (s t : Bytes) :
+    SecRelI f { bp with name := s } { bf with name := t } := by
+  refine ⟨?_, h.2⟩
+  cases h.1 with
+  | zero hf hz => exact .zero hf ⟨hz.stype, hz.size, hz.offset, hz.nameOff, hz.flags, hz.addr, hz.link,
+      hz.info, hz.addrAlign, hz.entSize, hz.data⟩
+  | never hs hd hx => exact .never ⟨hs.stype, hs.size, hs.offset, hs.nameOff, hs.flags, hs.addr, hs.link,
+      hs.info, hs.addrAlign, hs.entSize⟩ hd hx
+  | both hs hd hl hc hn => exact .both ⟨hs.stype, hs.size, hs.offset, hs.nameOff, hs.flags, hs.addr, hs.link,
+      hs.info, hs.addrAlign, hs.entSize⟩ hd hl hc hn
+
+/-- the name resolution step as a pure function (the string lookups cannot fault: C01) -/
+def namesPure (c : Cls) (enc : Enc) (tr : List Trans) (hdr : Bytes) (ls : LoadSt) (secs : List SecBuf) :
+    LoadSt × List SecBuf :=
+  if Hdr.e_shstrndx c enc hdr == BitVec.ofNat 16 SHN_UNDEF then (ls, secs) else
+  match secs[(Hdr.e_shstrndx c enc hdr).toNat]? with
+  | none => (ls, secs)
+  | some strtab =>
+    ((secGetData c tr ls strtab).1,
+     (secs.set (Hdr.e_shstrndx c enc hdr).toNat (secGetData c tr ls strtab).2).map
+        (withName (secGetData c tr ls strtab).2))
+
+theorem loadNamesK_eq (c : Cls) (enc : Enc) (tr : List Trans) (hdr : Bytes) (ls : LoadSt)
+    (secs : List SecBuf) (k : LoadSt × List SecBuf → M LoadRes) (img : Bytes) (kind : StreamKind)
+    (hs : StOk tr img kind ls) (hsecs : ∀ b ∈ secs, LoadedSec tr b img) :
+    loadNamesK c enc tr hdr ls secs k = k (namesPure c enc tr hdr ls secs) := by
+  unfold loadNamesK namesPure
+  by_cases h1 : (Hdr.e_shstrndx c enc hdr == BitVec.ofNat 16 SHN_UNDEF) = true
+  · rw [if_pos h1, if_pos h1]
+  · rw [if_neg h1, if_neg h1]
+    cases hget : secs[(Hdr.e_shstrndx c enc hdr).toNat]? with
+    | none => rfl
+    | some strtab =>
+      have hmem : strtab ∈ secs := List.mem_of_getElem? hget
+      obtain ⟨-, h2, -⟩ := secGetData_spec c tr ls strtab img kind hs (hsecs _ hmem)
+      dsimp only
+      rw [resolveNames_eq _ h2.bufOk]
+      rfl
+
+theorem namesPure_sim (c : Cls) (enc : Enc) (hdr : Bytes) (img : Bytes) (k : Nat) (kind : StreamKind)
+    (hlen : img.length < 9223372036854775808) (lsp lsf : LoadSt) (secsp secsf : List SecBuf)
+    (hs : Sim2 img k kind lsp lsf) (hrel : ListRel (SecRelI lsp.st.fail) secsp secsf)
+    (hip : ∀ b ∈ secsp, LoadedSec [] b (img.take k)) (hif : ∀ b ∈ secsf, LoadedSec [] b img) :
+    Sim2 img k kind (namesPure c enc [] hdr lsp secsp).1 (namesPure c enc [] hdr lsf secsf).1 ∧
+    ListRel (SecRelI (namesPure c enc [] hdr lsp secsp).1.st.fail)
+      (namesPure c enc [] hdr lsp secsp).2 (namesPure c enc [] hdr lsf secsf).2 := by
+  have hlk := take_length_le img k
+  unfold namesPure
+  split
+  · exact ⟨hs, hrel⟩
+  · rcases hrel.getElem? (Hdr.e_shstrndx c enc hdr).toNat with ⟨e1, e2⟩ | ⟨bp, bf, e1, e2, hr⟩
+    · rw [e1, e2]; exact ⟨hs, hrel⟩
+    · rw [e1, e2]
+      dsimp only
+      have ip := hip bp (List.mem_of_getElem? e1)
+      have jf := hif bf (List.mem_of_getElem? e2)
+      obtain ⟨pP, fP⟩ := secGetData_pure c lsp bp (img.take k) hs.p.data ip (by omega)
+      obtain ⟨pF, fF⟩ := secGetData_pure c lsf bf img hs.f.data jf hlen
+      have sP := secGetData_spec c [] lsp bp (img.take k) kind hs.p ip
+      have sF := secGetData_spec c [] lsf bf img kind hs.f jf
+      have rel1 := getDataPure_rel hr.1 ip jf hlen
+      rw [← pP, ← pF] at rel1
+      refine ⟨⟨sP.1, sF.1, fun hx => by rw [fP]; rw [fF] at hx; exact hs.fail hx⟩, ?_⟩
+      rw [fP]
+      have hidx : (secGetData c [] lsp bp).2.index = (secGetData c [] lsf bf).2.index := by
+        rw [(secGetData_sameHdr c [] lsp bp).index, (secGetData_sameHdr c [] lsf bf).index]; exact hr.2
+      refine (hrel.set _ (⟨rel1, hidx⟩ : SecRelI _ _ _)).map _ _ ?_
+      intro a b hab
+      rw [withName_eq, withName_eq]
+      exact hab.name _ _
+
+/-! ### segments in both runs -/
+
+/-- the eight program header fields -/
+structure SegFields (g' g : Seg) : Prop where
+  stype : g'.stype = g.stype
+  flags : g'.flags = g.flags
+  offset : g'.offset = g.offset
+  vaddr : g'.vaddr = g.vaddr
+  paddr : g'.paddr = g.paddr
+  filesz : g'.filesz = g.filesz
+  memsz : g'.memsz = g.memsz
+  align : g'.align = g.align
+
+theorem decodePhdr_fields (c : Cls) (enc : Enc) (r : Bytes) (g g' : Seg) :
+    SegFields (decodePhdr c enc r g) (decodePhdr c enc r g') := by
+  cases c <;> constructor <;> rfl
+
+theorem SegFields.trans {a b c : Seg} (h1 : SegFields a b) (h2 : SegFields b c) : SegFields a c :=
+  ⟨h1.stype.trans h2.stype, h1.flags.trans h2.flags, h1.offset.trans h2.offset, h1.vaddr.trans h2.vaddr,
+   h1.paddr.trans h2.paddr, h1.filesz.trans h2.filesz, h1.memsz.trans h2.memsz, h1.align.trans h2.align⟩
+
+/-- a segment of the prefix run against the same segment of the complete run: identical -/
+structure SegRel (gp gf : Seg) : Prop where
+  fields : SegFields gp gf
+  data : gp.data = gf.data
+  index : gp.index = gf.index
+  secs : gp.secs = gf.secs
+
+theorem segLoadDataPure_rel {img : Bytes} {k : Nat} {gp gf : Seg} (hs : SegFields gp gf)
+    (hdp : gp.data = none) (hdf : gf.data = none)
+    (hp : LoadedSeg [] gp (img.take k)) (hf : LoadedSeg [] gf img)
+    (hlen : img.length < 9223372036854775808)
+    (hok : (segLoadDataPure (img.take k) gp).2 = true) :
+    (segLoadDataPure img gf).2 = true ∧
+    SegFields (segLoadDataPure (img.take k) gp).1 (segLoadDataPure img gf).1 ∧
+    (segLoadDataPure (img.take k) gp).1.data = (segLoadDataPure img gf).1.data := by
+  have hlk := take_length_le img k
+  unfold segLoadDataPure at hok ⊢
+  rw [← hs.stype, ← hs.filesz, ← hs.offset]
+  by_cases h0 : seg64_load_data_skip gp.stype gp.filesz = true
+  · simp only [h0, if_true]
+    exact ⟨trivial, hs, hdp.trans hdf.symm⟩
+  rw [if_neg h0] at hok
+  rw [if_neg h0, if_neg h0]
+  by_cases h1 : sec64_load_data_off_gt gp.offset gp.streamSize = true
+  · simp [h1] at hok
+  rw [if_neg h1] at hok
+  by_cases h2 : sec64_load_data_size_gt gp.filesz gp.streamSize gp.offset = true
+  · simp [h2] at hok
+  rw [if_neg h2] at hok
+  by_cases h4 : sec64_load_data_sizet gp.filesz = true
+  · simp [h4] at hok
+  have hle := g_size_gt_false (by simpa using h2) (g_off_gt_false (by simpa using h1))
+  have hssp : gp.streamSize = BitVec.ofNat 64 (img.take k).length := by
+    rcases hp.ss with ⟨-, hss⟩ | ⟨-, hn⟩
+    · exact hss
+    · exact absurd (hn rfl).1 h0
+  have hssf : gf.streamSize = BitVec.ofNat 64 img.length := by
+    rcases hf.ss with ⟨-, hss⟩ | ⟨-, hn⟩
+    · exact hss
+    · have := (hn rfl).1; rw [← hs.stype, ← hs.filesz] at this; exact absurd this h0
+  rw [hssp, toNat_ofNat_len (by omega)] at hle
+  have hle' : gp.offset.toNat + gp.filesz.toNat ≤ gf.streamSize.toNat := by
+    rw [hssf, toNat_ofNat_len (by omega)]; omega
+  rw [if_neg h1, if_neg h2, if_neg h4, if_neg (by rw [g_off_gt_of_le (by omega)]; decide),
+    if_neg (by rw [g_size_gt_of_le hle']; decide), if_neg h4]
+  refine ⟨rfl, ⟨rfl, hs.flags, rfl, hs.vaddr, hs.paddr, rfl, hs.memsz, hs.align⟩, ?_⟩
+  simp only
+  rw [slice_take (by omega)]
+
+@[simp] theorem segHdr_data (c enc tr st p l) : (segHdr c enc tr st p l).data = none := by simp [segHdr]
+@[simp] theorem segHdr_isLoaded (c enc tr st p l) : (segHdr c enc tr st p l).isLoaded = false := by simp [segHdr]
+
+/-- **one segment in both runs**: if the prefix run's `segment_impl::load` succeeds and leaves the
+    stream good, the complete run's does too, and yields the identical segment -/
+theorem segLoad_sim (c : Cls) (enc : Enc) (img : Bytes) (k : Nat) (kind : StreamKind)
+    (hlen : img.length < 9223372036854775808) (lsp lsf : LoadSt) (h : Sim2 img k kind lsp lsf)
+    (hdrOff : Int) (isLazy : Bool)
+    (hok : (segLoad c enc [] lsp hdrOff isLazy).2.2 = true)
+    (hnf : (segLoad c enc [] lsp hdrOff isLazy).1.st.fail = false) :
+    (segLoad c enc [] lsf hdrOff isLazy).2.2 = true ∧
+    (segLoad c enc [] lsf hdrOff isLazy).1.st.fail = false ∧
+    SegFields (segLoad c enc [] lsp hdrOff isLazy).2.1 (segLoad c enc [] lsf hdrOff isLazy).2.1 ∧
+    (segLoad c enc [] lsp hdrOff isLazy).2.1.data = (segLoad c enc [] lsf hdrOff isLazy).2.1.data ∧
+    Sim2 img k kind (segLoad c enc [] lsp hdrOff isLazy).1 (segLoad c enc [] lsf hdrOff isLazy).1 := by
+  have hlk := take_length_le img k
+  obtain ⟨-, hfull, hshort⟩ := hdrRead_sim h.sim hdrOff (phdrSize c) (Nat.pos_of_ne_zero (phdrSize_ne_zero c))
+  have specP := segLoad_spec c enc [] lsp hdrOff isLazy (img.take k) kind h.p
+  have specF := segLoad_spec c enc [] lsf hdrOff isLazy img kind h.f
+  by_cases hg : (hdrRead [] lsp.st hdrOff (phdrSize c)).1.gcount = phdrSize c
+  · obtain ⟨g1, g2, g3, g4, -, -, -⟩ := hfull hg
+    have hfields : SegFields (segHdr c enc [] lsp.st hdrOff isLazy) (segHdr c enc [] lsf.st hdrOff isLazy) := by
+      unfold segHdr; rw [g2]; exact decodePhdr_fields c enc _ _ _
+    rw [segLoad_eq] at hok hnf
+    rw [segLoad_eq c enc [] lsp, segLoad_eq c enc [] lsf]
+    simp only [segHdr_isLoaded, Bool.or_false] at hok hnf ⊢
+    by_cases hl : (!isLazy) = true
+    · rw [if_pos hl] at hok hnf
+      rw [if_pos hl, if_pos hl]
+      have iP := segHdr_inv c enc [] lsp.st hdrOff isLazy (img.take k) h.p.data
+      have iF := segHdr_inv c enc [] lsf.st hdrOff isLazy img h.f.data
+      obtain ⟨pP, fP⟩ := segLoadData_pure c { lsp with st := (hdrRead [] lsp.st hdrOff (phdrSize c)).1 } _
+        (img.take k) (by simp [h.p.data]) iP (by omega)
+      obtain ⟨pF, fF⟩ := segLoadData_pure c { lsf with st := (hdrRead [] lsf.st hdrOff (phdrSize c)).1 } _
+        img (by simp [h.f.data]) iF hlen
+      have hok' : (segLoadDataPure (img.take k) (segHdr c enc [] lsp.st hdrOff isLazy)).2 = true := by
+        rw [← pP]; exact hok
+      obtain ⟨r1, r2, r3⟩ := segLoadDataPure_rel hfields (by simp) (by simp) iP iF hlen hok'
+      have e1 : (segLoadData c [] { lsp with st := (hdrRead [] lsp.st hdrOff (phdrSize c)).1 }
+          (segHdr c enc [] lsp.st hdrOff isLazy)).2.1 =
+          (segLoadDataPure (img.take k) (segHdr c enc [] lsp.st hdrOff isLazy)).1 := by rw [pP]
+      have e2 : (segLoadData c [] { lsf with st := (hdrRead [] lsf.st hdrOff (phdrSize c)).1 }
+          (segHdr c enc [] lsf.st hdrOff isLazy)).2.1 =
+          (segLoadDataPure img (segHdr c enc [] lsf.st hdrOff isLazy)).1 := by rw [pF]
+      have e3 : (segLoadData c [] { lsf with st := (hdrRead [] lsf.st hdrOff (phdrSize c)).1 }
+          (segHdr c enc [] lsf.st hdrOff isLazy)).2.2 = true := by rw [pF]; exact r1
+      have hFf : (segLoadData c [] { lsf with st := (hdrRead [] lsf.st hdrOff (phdrSize c)).1 }
+          (segHdr c enc [] lsf.st hdrOff isLazy)).1.st.fail = false := fF.trans g4
+      refine ⟨e3, hFf, by rw [e1, e2]; exact r2, by rw [e1, e2]; exact r3, ?_⟩
+      have sP := specP.1; have sF := specF.1
+      rw [segLoad_eq] at sP sF
+      simp only [segHdr_isLoaded, Bool.or_false] at sP sF
+      rw [if_pos hl] at sP sF
+      exact ⟨sP, sF, fun hx => by rw [hFf] at hx; exact absurd hx (by decide)⟩
+    · rw [if_neg hl, if_neg hl]
+      refine ⟨rfl, g4, hfields, by simp, ?_⟩
+      have sP := specP.1; have sF := specF.1
+      rw [segLoad_eq] at sP sF
+      simp only [segHdr_isLoaded, Bool.or_false] at sP sF
+      rw [if_neg hl] at sP sF
+      exact ⟨sP, sF, fun hx => by rw [g4] at hx; exact absurd hx (by decide)⟩
+  · -- a short program header read leaves the prefix stream failed: excluded by `hnf`
+    have hfl := hshort hg
+    rw [segLoad_eq] at hnf
+    split at hnf
+    · rw [segLoadData_fail_mono c [] _ _ hfl] at hnf; exact absurd hnf (by decide)
+    · rw [hfl] at hnf; exact absurd hnf (by decide)
+
+theorem SecRel.fields_of_not_failed {bp bf : SecBuf} (h : SecRel false bp bf) : SameFields bp bf := by
+  cases h with
+  | zero hf _ => exact absurd hf (by decide)
+  | never hs _ _ => exact hs
+  | both hs _ _ _ _ => exact hs
+
+theorem memberOf_congr {gp gf : Seg} {bp bf : SecBuf} (hg : SegFields gp gf) (hb : SameFields bp bf) :
+    memberOf gp bp = memberOf gf bf := by
+  unfold memberOf
+  rw [hg.offset, hg.filesz, hg.vaddr, hg.memsz, hg.stype, hb.flags, hb.addr, hb.size, hb.offset]
+
+theorem fail_false_of_mono {a b : Bool} (hm : a = true → b = true) (hb : b = false) : a = false := by
+  cases a
+  · rfl
+  · rw [hm rfl] at hb; exact absurd hb (by decide)
+
+/-- the segment loop in both runs: if the prefix run's loop succeeds, the complete run's loop
+    succeeds with identical segments (member lists included); and if there is at least one
+    segment, the prefix stream had not failed before the loop -/
+theorem loadSegmentsLoop_sim (c : Cls) (enc : Enc) (img : Bytes) (k : Nat) (kind : StreamKind)
+    (hlen : img.length < 9223372036854775808) (isLazy : Bool) (phoff : Int) (entsize : Nat)
+    (secsp secsf : List SecBuf) :
+    ∀ (n i : Nat) (lsp lsf : LoadSt) (accp accf : List Seg), Sim2 img k kind lsp lsf →
+      (lsp.st.fail = false → ListRel (SecRelI false) secsp secsf) → ListRel SegRel accp accf →
+      (loadSegmentsLoop c enc [] isLazy phoff entsize secsp n i lsp accp).2.2 = true →
+      (loadSegmentsLoop c enc [] isLazy phoff entsize secsf n i lsf accf).2.2 = true ∧
+      ListRel SegRel (loadSegmentsLoop c enc [] isLazy phoff entsize secsp n i lsp accp).2.1
+        (loadSegmentsLoop c enc [] isLazy phoff entsize secsf n i lsf accf).2.1 ∧
+      (0 < n → lsp.st.fail = false) := by
+  intro n
+  induction n with
+  | zero =>
+    intro i lsp lsf accp accf _ _ hacc _
+    exact ⟨rfl, hacc.reverse, fun h => absurd h (by omega)⟩
+  | succ n ih =>
+    intro i lsp lsf accp accf hs hsecs hacc hok
+    rw [loadSegmentsLoop_succ] at hok
+    rw [loadSegmentsLoop_succ, loadSegmentsLoop_succ]
+    by_cases hc : (!(segLoad c enc [] lsp (phoff + (Int.ofNat i) * (Int.ofNat entsize)) isLazy).2.2 ||
+        (segLoad c enc [] lsp (phoff + (Int.ofNat i) * (Int.ofNat entsize)) isLazy).1.st.fail) = true
+    · rw [if_pos hc] at hok; exact Bool.noConfusion hok
+    · rw [if_neg hc] at hok
+      rw [if_neg hc]
+      have hokp : (segLoad c enc [] lsp (phoff + (Int.ofNat i) * (Int.ofNat entsize)) isLazy).2.2 = true := by
+        cases hx : (segLoad c enc [] lsp (phoff + (Int.ofNat i) * (Int.ofNat entsize)) isLazy).2.2
+        · rw [hx] at hc; exact absurd rfl hc
+        · rfl
+      have hnfp : (segLoad c enc [] lsp (phoff + (Int.ofNat i) * (Int.ofNat entsize)) isLazy).1.st.fail = false := by
+        cases hx : (segLoad c enc [] lsp (phoff + (Int.ofNat i) * (Int.ofNat entsize)) isLazy).1.st.fail
+        · rfl
+        · rw [hx] at hc; exact absurd (Bool.or_true _) hc
+      obtain ⟨f1, f2, f3, f4, f5⟩ := segLoad_sim c enc img k kind hlen lsp lsf hs _ isLazy hokp hnfp
+      rw [if_neg (by rw [f1, f2]; decide)]
+      have hnf0 : lsp.st.fail = false :=
+        fail_false_of_mono (segLoad_fail_mono c enc [] lsp _ isLazy) hnfp
+      have hrel := hsecs hnf0
+      have hmem : (secsp.filter (memberOf (segLoad c enc [] lsp (phoff + (Int.ofNat i) * (Int.ofNat entsize)) isLazy).2.1)).map
+            (fun b => BitVec.ofNat 16 b.index) =
+          (secsf.filter (memberOf (segLoad c enc [] lsf (phoff + (Int.ofNat i) * (Int.ofNat entsize)) isLazy).2.1)).map
+            (fun b => BitVec.ofNat 16 b.index) :=
+        hrel.filter_map _ _ _ _ (fun a b hab =>
+          ⟨memberOf_congr f3 hab.1.fields_of_not_failed, by rw [hab.2]⟩)
+      have hacc' : ListRel SegRel
+          ({ (segLoad c enc [] lsp (phoff + (Int.ofNat i) * (Int.ofNat entsize)) isLazy).2.1 with
+              index := i,
+              secs := (secsp.filter (memberOf (segLoad c enc [] lsp (phoff + (Int.ofNat i) * (Int.ofNat entsize)) isLazy).2.1)).map
+                        (fun b => BitVec.ofNat 16 b.index) } :: accp)
+          ({ (segLoad c enc [] lsf (phoff + (Int.ofNat i) * (Int.ofNat entsize)) isLazy).2.1 with
+              index := i,
+              secs := (secsf.filter (memberOf (segLoad c enc [] lsf (phoff + (Int.ofNat i) * (Int.ofNat entsize)) isLazy).2.1)).map
+                        (fun b => BitVec.ofNat 16 b.index) } :: accf) :=
+        .cons ⟨⟨f3.stype, f3.flags, f3.offset, f3.vaddr, f3.paddr, f3.filesz, f3.memsz, f3.align⟩,
+            f4, rfl, hmem⟩ hacc
+      obtain ⟨r1, r2, -⟩ := ih (i + 1) _ _ _ _ f5 (fun _ => hrel) hacc' hok
+      exact ⟨r1, r2, fun _ => hnf0⟩
+
+/-! ### section names in both runs -/
+
+@[simp] theorem decodeShdr_name (c enc r b) : (decodeShdr c enc r b).name = b.name := by cases c <;> rfl
+
+theorem secLoadData_name (c : Cls) (tr : List Trans) (ls : LoadSt) (b : SecBuf) :
+    (secLoadData c tr ls b).2.1.name = b.name := by
+  rw [secLoadData_eq]
+  repeat' split
+  all_goals rfl
+
+theorem secGetData_name (c : Cls) (tr : List Trans) (ls : LoadSt) (b : SecBuf) :
+    (secGetData c tr ls b).2.name = b.name := by
+  rw [secGetData_eq]
+  split
+  · split
+    · exact secLoadData_name c tr ls b
+    · exact secLoadData_name c tr ls b
+  · rfl
+
+/-- `section_impl::load` leaves the name empty (names are resolved afterwards) -/
+theorem secLoad_name (c : Cls) (enc : Enc) (tr : List Trans) (ls : LoadSt) (hdrOff : Int) (isLazy : Bool)
+    (idx : Nat) : (secLoad c enc tr ls hdrOff isLazy idx).2.name = [] := by
+  rw [secLoad_eq]
+  split
+  · rfl
+  · split
+    · exact (secGetData_name c tr _ _).trans (by simp [secHdrOnly, secB0])
+    · simp [secHdrOnly, secB0]
+
+theorem loadSectionsLoop_names (c : Cls) (enc : Enc) (tr : List Trans) (isLazy : Bool) (shoff : Int)
+    (entsize : Nat) :
+    ∀ (n i : Nat) (ls : LoadSt) (acc : List SecBuf), (∀ b ∈ acc, b.name = []) →
+      ∀ b ∈ (loadSectionsLoop c enc tr isLazy shoff entsize n i ls acc).2, b.name = [] := by
+  intro n
+  induction n with
+  | zero => intro i ls acc hacc b hb; exact hacc b (by simpa [loadSectionsLoop] using hb)
+  | succ n ih =>
+    intro i ls acc hacc
+    rw [loadSectionsLoop_succ]
+    apply ih
+    intro b hb
+    rcases List.mem_cons.mp hb with rfl | hb
+    · exact secLoad_name ..
+    · exact hacc b hb
+
+theorem ListRel.and_mem {α β : Type} {R : α → β → Prop} {P : α → Prop} {Q : β → Prop} {as : List α}
+    {bs : List β} (h : ListRel R as bs) (hp : ∀ a ∈ as, P a) (hq : ∀ b ∈ bs, Q b) :
+    ListRel (fun a b => R a b ∧ P a ∧ Q b) as bs := by
+  induction h with
+  | nil => exact .nil
+  | cons hr _ ih =>
+    exact .cons ⟨hr, hp _ (List.mem_cons_self ..), hq _ (List.mem_cons_self ..)⟩
+      (ih (fun a ha => hp a (List.mem_cons_of_mem _ ha)) (fun b hb => hq b (List.mem_cons_of_mem _ hb)))
+
+/-- names of corresponding sections: for the same name offset the prefix run's name is empty
+    (no name table data in the prefix) or the same string -/
+def NameRel (bp bf : SecBuf) : Prop := bp.nameOff = bf.nameOff → bp.name = [] ∨ bp.name = bf.name
+
+theorem getString_none_data (b : SecBuf) (idx : BitVec 32) (h : b.data = none) : getString b idx = .ok none := by
+  unfold getString; rw [h]; rfl
+
+theorem getString_congr {bp bf : SecBuf} (hd : bp.data = bf.data) (hs : bp.size = bf.size) (idx : BitVec 32) :
+    getString bp idx = getString bf idx := by
+  unfold getString; rw [hd, hs]
+
+theorem namesPure_names (c : Cls) (enc : Enc) (hdr : Bytes) (img : Bytes) (k : Nat) (kind : StreamKind)
+    (hlen : img.length < 9223372036854775808) (lsp lsf : LoadSt) (secsp secsf : List SecBuf)
+    (hs : Sim2 img k kind lsp lsf) (hrel : ListRel (SecRelI lsp.st.fail) secsp secsf)
+    (hip : ∀ b ∈ secsp, LoadedSec [] b (img.take k)) (hif : ∀ b ∈ secsf, LoadedSec [] b img)
+    (hnp : ∀ b ∈ secsp, b.name = []) (hnf : ∀ b ∈ secsf, b.name = []) :
+    ListRel NameRel (namesPure c enc [] hdr lsp secsp).2 (namesPure c enc [] hdr lsf secsf).2 := by
+  have hlk := take_length_le img k
+  have hrel' := hrel.and_mem hnp hnf
+  have hempty : ListRel NameRel secsp secsf := hrel'.mono (fun a b hab _ => Or.inl hab.2.1)
+  unfold namesPure
+  split
+  · exact hempty
+  · rcases hrel.getElem? (Hdr.e_shstrndx c enc hdr).toNat with ⟨e1, e2⟩ | ⟨bp, bf, e1, e2, hr⟩
+    · rw [e1, e2]; exact hempty
+    · rw [e1, e2]
+      dsimp only
+      have ip := hip bp (List.mem_of_getElem? e1)
+      have jf := hif bf (List.mem_of_getElem? e2)
+      obtain ⟨pP, -⟩ := secGetData_pure c lsp bp (img.take k) hs.p.data ip (by omega)
+      obtain ⟨pF, -⟩ := secGetData_pure c lsf bf img hs.f.data jf hlen
+      have rel1 := getDataPure_rel hr.1 ip jf hlen
+      rw [← pP, ← pF] at rel1
+      have hne : (secGetData c [] lsp bp).2.name = [] ∧ (secGetData c [] lsf bf).2.name = [] :=
+        ⟨(secGetData_name ..).trans (hnp bp (List.mem_of_getElem? e1)),
+         (secGetData_name ..).trans (hnf bf (List.mem_of_getElem? e2))⟩
+      have hset : ListRel (fun a b => a.name = [] ∧ b.name = [])
+          (secsp.set (Hdr.e_shstrndx c enc hdr).toNat (secGetData c [] lsp bp).2)
+          (secsf.set (Hdr.e_shstrndx c enc hdr).toNat (secGetData c [] lsf bf).2) :=
+        (hrel'.mono (fun a b hab => hab.2)).set _ hne
+      refine hset.map _ _ ?_
+      intro a b ⟨ha, hb⟩
+      rw [withName_eq, withName_eq]
+      intro hoff
+      change a.nameOff = b.nameOff at hoff
+      show nameOf _ a = [] ∨ nameOf _ a = nameOf _ b
+      cases hd : (secGetData c [] lsp bp).2.data with
+      | none =>
+        left; unfold nameOf; rw [getString_none_data _ _ hd]; exact ha
+      | some d =>
+        right
+        have hcong : ∀ idx, getString (secGetData c [] lsp bp).2 idx = getString (secGetData c [] lsf bf).2 idx := by
+          cases rel1 with
+          | zero _ hz => rw [hz.data] at hd; cases hd
+          | never _ hdn _ => rw [hdn] at hd; cases hd
+          | both hsf hdd _ _ _ => exact fun idx => getString_congr hdd hsf.size idx
+        unfold nameOf
+        rw [hcong, hoff, ha, hb]
+
+/-! ### the phases of `load` in both runs -/
+
+/-- what the two loads have in common when the load of the prefix succeeds -/
+structure PrefixSound (f : Bool) (rp rf : LoadRes) : Prop where
+  ok : rf.ok = true
+  hdr : rp.obj.hdr = rf.obj.hdr
+  cls : rp.obj.cls = rf.obj.cls
+  enc : rp.obj.enc = rf.obj.enc
+  secs : ListRel (SecRelI f) rp.obj.secs rf.obj.secs
+  names : ListRel NameRel rp.obj.secs rf.obj.secs
+  segs : ListRel SegRel rp.obj.segs rf.obj.segs
+  /-- with at least one segment the prefix run's stream never failed: no zeroed section -/
+  nofail : rp.obj.segs ≠ [] → f = false
+
+theorem loadSegmentsLoop_zero_segs (c enc tr isLazy phoff entsize secs i ls) :
+    (loadSegmentsLoop c enc tr isLazy phoff entsize secs 0 i ls []).2.1 = [] := rfl
+
+theorem loadSegsPhase_sim (o : Obj) (c : Cls) (enc : Enc) (hdr : Bytes) (isLazy : Bool) (htr : o.trans = [])
+    (img : Bytes) (k : Nat) (kind : StreamKind) (hlen : img.length < 9223372036854775808)
+    (lsp lsf : LoadSt) (secsp secsf : List SecBuf) (hs : Sim2 img k kind lsp lsf)
+    (hrel : ListRel (SecRelI lsp.st.fail) secsp secsf) (hnames : ListRel NameRel secsp secsf)
+    (rp rf : LoadRes)
+    (hp : loadSegsPhase o c enc hdr isLazy lsp secsp = .ok rp)
+    (hf : loadSegsPhase o c enc hdr isLazy lsf secsf = .ok rf) (hok : rp.ok = true) :
+    PrefixSound lsp.st.fail rp rf := by
+  unfold loadSegsPhase at hp hf
+  by_cases hbad : load_segments_entsize_bad (Hdr.e_phnum c enc hdr) (Hdr.ident hdr EI_CLASS)
+      (Hdr.e_phentsize c enc hdr) = true
+  · rw [if_pos hbad] at hp
+    cases hp
+    exact Bool.noConfusion hok
+  · rw [if_neg hbad] at hp hf
+    rw [htr] at hp hf
+    cases hp
+    cases hf
+    have hsecs : lsp.st.fail = false → ListRel (SecRelI false) secsp secsf := fun hx => hx ▸ hrel
+    obtain ⟨r1, r2, r3⟩ := loadSegmentsLoop_sim c enc img k kind hlen isLazy (Hdr.e_phoff c enc hdr).toInt
+      (Hdr.e_phentsize c enc hdr).toNat secsp secsf (Hdr.e_phnum c enc hdr).toNat 0 lsp lsf [] [] hs hsecs
+      .nil hok
+    refine ⟨r1, rfl, rfl, rfl, hrel, hnames, r2, ?_⟩
+    intro hne
+    apply r3
+    rcases Nat.eq_zero_or_pos (Hdr.e_phnum c enc hdr).toNat with h0 | h0
+    · exfalso; apply hne
+      show (loadSegmentsLoop c enc [] isLazy (Hdr.e_phoff c enc hdr).toInt (Hdr.e_phentsize c enc hdr).toNat
+        secsp (Hdr.e_phnum c enc hdr).toNat 0 lsp []).2.1 = []
+      rw [h0]; rfl
+    · exact h0
+
+theorem loadAfterHdr_sim (o : Obj) (c : Cls) (enc : Enc) (hdr : Bytes) (isLazy : Bool) (htr : o.trans = [])
+    (img : Bytes) (k : Nat) (hlen : img.length < 9223372036854775808)
+    (sp sf : IStream) (hs : Sim img k sp sf) (rp rf : LoadRes)
+    (hp : loadAfterHdr o c enc hdr isLazy sp = .ok rp)
+    (hf : loadAfterHdr o c enc hdr isLazy sf = .ok rf) (hok : rp.ok = true) :
+    ∃ f, PrefixSound f rp rf := by
+  unfold loadAfterHdr at hp hf
+  rw [htr] at hp hf
+  have h0 : Sim2 img k sf.kind { st := sp } { st := sf } :=
+    ⟨⟨hs.dp, hs.kind, fun a ha => by cases ha⟩, ⟨hs.df, rfl, fun a ha => by cases ha⟩, hs.fail⟩
+  by_cases hbad : load_sections_entsize_bad (Hdr.e_shnum c enc hdr) (Hdr.ident hdr EI_CLASS)
+      (Hdr.e_shentsize c enc hdr) = true
+  · rw [if_pos hbad] at hp hf
+    have e1 : loadSecs0 c enc [] hdr isLazy sp = ({ st := sp }, []) := by unfold loadSecs0; rw [if_pos hbad]
+    have e2 : loadSecs0 c enc [] hdr isLazy sf = ({ st := sf }, []) := by unfold loadSecs0; rw [if_pos hbad]
+    rw [e1] at hp; rw [e2] at hf
+    exact ⟨_, loadSegsPhase_sim o c enc hdr isLazy htr img k sf.kind hlen _ _ [] [] h0 .nil .nil rp rf hp hf hok⟩
+  · rw [if_neg hbad] at hp hf
+    have e1 : loadSecs0 c enc [] hdr isLazy sp = loadSectionsLoop c enc [] isLazy (Hdr.e_shoff c enc hdr).toInt
+        (Hdr.e_shentsize c enc hdr).toNat (Hdr.e_shnum c enc hdr).toNat 0 { st := sp } [] := by
+      unfold loadSecs0; rw [if_neg hbad]
+    have e2 : loadSecs0 c enc [] hdr isLazy sf = loadSectionsLoop c enc [] isLazy (Hdr.e_shoff c enc hdr).toInt
+        (Hdr.e_shentsize c enc hdr).toNat (Hdr.e_shnum c enc hdr).toNat 0 { st := sf } [] := by
+      unfold loadSecs0; rw [if_neg hbad]
+    obtain ⟨p1, p2⟩ := loadSecs0_spec c enc [] hdr isLazy sp
+    obtain ⟨q1, q2⟩ := loadSecs0_spec c enc [] hdr isLazy sf
+    rw [loadNamesK_eq c enc [] hdr _ _ _ sp.data sp.kind p1 p2] at hp
+    rw [loadNamesK_eq c enc [] hdr _ _ _ sf.data sf.kind q1 q2] at hf
+    obtain ⟨l1, l2⟩ := loadSectionsLoop_sim c enc img k sf.kind hlen isLazy (Hdr.e_shoff c enc hdr).toInt
+      (Hdr.e_shentsize c enc hdr).toNat (Hdr.e_shnum c enc hdr).toNat 0 _ _ [] [] h0 .nil
+    rw [← e1, ← e2] at l1 l2
+    rw [hs.dp] at p2; rw [hs.df] at q2
+    obtain ⟨n1, n2⟩ := namesPure_sim c enc hdr img k sf.kind hlen _ _ _ _ l1 l2 p2 q2
+    have m1 : ∀ b ∈ (loadSecs0 c enc [] hdr isLazy sp).2, b.name = [] := by
+      rw [e1]; exact loadSectionsLoop_names c enc [] isLazy _ _ _ 0 _ [] (fun b hb => by cases hb)
+    have m2 : ∀ b ∈ (loadSecs0 c enc [] hdr isLazy sf).2, b.name = [] := by
+      rw [e2]; exact loadSectionsLoop_names c enc [] isLazy _ _ _ 0 _ [] (fun b hb => by cases hb)
+    have n3 := namesPure_names c enc hdr img k sf.kind hlen _ _ _ _ l1 l2 p2 q2 m1 m2
+    exact ⟨_, loadSegsPhase_sim o c enc hdr isLazy htr img k sf.kind hlen _ _ _ _ n1 n2 n3 rp rf hp hf hok⟩
+
+/-- **prefix_sound**: for EVERY byte string `img` shorter than 2^63 (well-formed or not) and every
+    prefix length `k`: if loading the prefix succeeds (`ok = true`), then loading the complete
+    image succeeds as well, with the identical ELF header, with identical segments (all eight
+    fields, data pointer contents, member lists), and section by section: the prefix run's
+    section is the zeroed one without data (possible only if there are no segments), or it has
+    the same ten header fields and its data is absent or the same bytes. -/
+theorem prefix_sound (o : Obj) (htr : o.trans = []) (img : Bytes) (k : Nat) (kind : StreamKind)
+    (isLazy : Bool) (hlen : img.length < 9223372036854775808) (rp rf : LoadRes)
+    (hp : load o { data := img.take k, kind := kind } isLazy = .ok rp)
+    (hf : load o { data := img, kind := kind } isLazy = .ok rf) (hok : rp.ok = true) :
+    ∃ f, PrefixSound f rp rf := by
+  rw [load_eq] at hp hf
+  dsimp only at hp hf
+  rw [htr] at hp hf
+  have hfailRes : ∀ (o' : Obj) (st : IStream), (Except.ok (failRes o' st) : M LoadRes) = .ok rp → False := by
+    intro o' st h; cases h; exact Bool.noConfusion hok
+  have S0 : Sim img k ({ data := img.take k, kind := kind } : IStream) { data := img, kind := kind } :=
+    ⟨rfl, rfl, rfl, fun h => Bool.noConfusion h⟩
+  obtain ⟨s1, f1, -⟩ := seekRead_sim S0 (trApply [] 0) 16 (by decide)
+  by_cases hg1 : ((({ data := img.take k, kind := kind } : IStream).seekg (trApply [] 0)).read 16).1.gcount = 16
+  · obtain ⟨a1, a2, -, -, -, -, -⟩ := f1 hg1
+    rw [if_neg (by rw [hg1]; decide)] at hp
+    rw [if_neg (by rw [a1]; decide), a2] at hf
+    split at hp
+    · exact (hfailRes _ _ hp).elim
+    · rename_i hmagic
+      rw [if_neg hmagic] at hf
+      split at hp
+      · exact (hfailRes _ _ hp).elim
+      · exact (hfailRes _ _ hp).elim
+      · rename_i c enc hc he
+        rw [hc, he] at hf
+        dsimp only at hf
+        obtain ⟨s2, f2, -⟩ := seekRead_sim s1 (trApply [] 0) (ehdrSize c) (by cases c <;> decide)
+        by_cases hg2 : ((((({ data := img.take k, kind := kind } : IStream).seekg (trApply [] 0)).read 16).1.seekg
+            (trApply [] 0)).read (ehdrSize c)).1.gcount = ehdrSize c
+        · obtain ⟨b1, b2, -, -, -, -, -⟩ := f2 hg2
+          rw [if_neg (by rw [hg2]; simp)] at hp
+          rw [if_neg (by rw [b1]; simp), b2] at hf
+          exact loadAfterHdr_sim _ c enc _ isLazy rfl img k hlen _ _ s2 rp rf hp hf hok
+        · rw [if_pos (by simpa using hg2)] at hp
+          exact (hfailRes _ _ hp).elim
+  · rw [if_pos (by simpa using hg1)] at hp
+    exact (hfailRes _ _ hp).elim
+
+/-- `prefix_sound`, section by section: section `i` of the prefix run is matched by section `i` of
+    the complete run; its header is all-zero or identical, its data pointer null or the same bytes -/
+theorem prefix_sound_section (o : Obj) (htr : o.trans = []) (img : Bytes) (k : Nat) (kind : StreamKind)
+    (isLazy : Bool) (hlen : img.length < 9223372036854775808) (rp rf : LoadRes)
+    (hp : load o { data := img.take k, kind := kind } isLazy = .ok rp)
+    (hf : load o { data := img, kind := kind } isLazy = .ok rf) (hok : rp.ok = true) :
+    rp.obj.secs.length = rf.obj.secs.length ∧
+    ∀ (i : Nat) (bp : SecBuf), rp.obj.secs[i]? = some bp → ∃ bf, rf.obj.secs[i]? = some bf ∧
+      (SecZero bp ∨ SameFields bp bf) ∧ (bp.data = none ∨ bp.data = bf.data) ∧ bp.index = bf.index ∧
+      (rp.obj.segs ≠ [] → SameFields bp bf) ∧
+      (bp.nameOff = bf.nameOff → bp.name = [] ∨ bp.name = bf.name) := by
+  obtain ⟨f, h⟩ := prefix_sound o htr img k kind isLazy hlen rp rf hp hf hok
+  refine ⟨h.secs.length_eq, ?_⟩
+  intro i bp hi
+  rcases h.secs.getElem? i with ⟨e1, -⟩ | ⟨a, b, e1, e2, hr⟩
+  · rw [e1] at hi; cases hi
+  · rw [e1] at hi; cases hi
+    have hnm : bp.nameOff = b.nameOff → bp.name = [] ∨ bp.name = b.name := by
+      rcases h.names.getElem? i with ⟨e3, -⟩ | ⟨a', b', e3, e4, hn⟩
+      · rw [e1] at e3; cases e3
+      · rw [e1] at e3; rw [e2] at e4; cases e3; cases e4; exact hn
+    refine ⟨b, e2, hr.1.sound.1, hr.1.sound.2, hr.2, ?_, hnm⟩
+    intro hne
+    have hf0 := h.nofail hne
+    subst hf0
+    exact hr.1.fields_of_not_failed
+
+/-- … and segment by segment: identical (success with `e_phnum > 0` implies the prefix stream never
+    failed) -/
+theorem prefix_sound_segment (o : Obj) (htr : o.trans = []) (img : Bytes) (k : Nat) (kind : StreamKind)
+    (isLazy : Bool) (hlen : img.length < 9223372036854775808) (rp rf : LoadRes)
+    (hp : load o { data := img.take k, kind := kind } isLazy = .ok rp)
+    (hf : load o { data := img, kind := kind } isLazy = .ok rf) (hok : rp.ok = true) :
+    rf.ok = true ∧ rp.obj.hdr = rf.obj.hdr ∧ rp.obj.segs.length = rf.obj.segs.length ∧
+    ∀ (i : Nat) (gp : Seg), rp.obj.segs[i]? = some gp → ∃ gf, rf.obj.segs[i]? = some gf ∧ SegRel gp gf := by
+  obtain ⟨f, h⟩ := prefix_sound o htr img k kind isLazy hlen rp rf hp hf hok
+  refine ⟨h.ok, h.hdr, h.segs.length_eq, ?_⟩
+  intro i gp hi
+  rcases h.segs.getElem? i with ⟨e1, -⟩ | ⟨a, b, e1, e2, hr⟩
+  · rw [e1] at hi; cases hi
+  · rw [e1] at hi; cases hi
+    exact ⟨b, e2, hr⟩
+
+/-! ### non-vacuity -/
+
+/-- a 208-byte ELF64/LSB image: header, two section headers at 64 (null section, string table),
+    the string table `\0.shstrtab\0` at 192 -/
+def img208b : Bytes := [
+   127, 69, 76, 70, 2, 1, 1, 0, 0, 0, 0, 0, 0, 0, 0, 0, 1, 0, 62, 0, 1, 0, 0, 0, 0, 0, 0, 0, 0, 0, 0, 0,
+   0, 0, 0, 0, 0, 0, 0, 0, 64, 0, 0, 0, 0, 0, 0, 0, 0, 0, 0, 0, 64, 0, 56, 0, 0, 0, 64, 0, 2, 0, 1, 0,
+   0, 0, 0, 0, 0, 0, 0, 0, 0, 0, 0, 0, 0, 0, 0, 0, 0, 0, 0, 0, 0, 0, 0, 0, 0, 0, 0, 0, 0, 0, 0, 0,
+   0, 0, 0, 0, 0, 0, 0, 0, 0, 0, 0, 0, 0, 0, 0, 0, 0, 0, 0, 0, 0, 0, 0, 0, 0, 0, 0, 0, 0, 0, 0, 0,
+   1, 0, 0, 0, 3, 0, 0, 0, 0, 0, 0, 0, 0, 0, 0, 0, 0, 0, 0, 0, 0, 0, 0, 0, 192, 0, 0, 0, 0, 0, 0, 0,
+   11, 0, 0, 0, 0, 0, 0, 0, 0, 0, 0, 0, 0, 0, 0, 0, 1, 0, 0, 0, 0, 0, 0, 0, 0, 0, 0, 0, 0, 0, 0, 0,
+   0, 46, 115, 104, 115, 116, 114, 116, 97, 98, 0, 0, 0, 0, 0, 0]
+
+/- prefixes of `img208b` that load (so the hypotheses of `prefix_sound` are satisfiable), and what
+   they yield for [type, size, data resident, name length] of the two sections:
+   k = 150 cuts section header 1 (zeroed section), k = 200 cuts the string table data (same header,
+   no data, no names), k = 205 contains everything that is referenced (identical to the full load) -/
+set_option maxRecDepth 100000 in
+example :
+    [150, 200, 205, 208].map (fun k =>
+      (load {} { data := img208b.take k } false).toOption.map (fun r =>
+        (r.ok, r.obj.secs.map (fun (b : SecBuf) =>
+          [b.stype.toNat, b.size.toNat, if b.data.isSome then 1 else 0, b.name.length])))) =
+    [some (true, [[0, 0, 0, 0], [0, 0, 0, 0]]),
+     some (true, [[0, 0, 0, 0], [3, 11, 0, 0]]),
+     some (true, [[0, 0, 0, 0], [3, 11, 1, 9]]),
+     some (true, [[0, 0, 0, 0], [3, 11, 1, 9]])] := by decide
+
+/- `read_prefix` has instances: reading 64 bytes at 0 from the 150-byte prefix is complete -/
+set_option maxRecDepth 100000 in
+example : ((({ data := img208b.take 150 } : IStream).read 64).1.gcount = 64) := by decide
+
 end ElfioVerif.C17
